@@ -1,5 +1,6 @@
 (* Proofs about model/Async.v: finality of the outcome, callbacks exactly once in order, exact expiry of wait,
-   sync_request = async_request + value, and the skeleton programs mean the model's functions. *)
+   sync_request = async_request + value, the refutation witnesses for the four findings, and the skeleton programs
+   mean the model's functions. *)
 From V Require Import lib.Base lib.Sx model.Async.
 From Coq Require Import ZifyBool String.
 Open Scope Z_scope.
@@ -10,9 +11,6 @@ Proof. unfold expired_at, timeout_expired. destruct (finite tt); cbn; split; try
 
 Lemma expired_mono tt t t' : t <= t' -> expired_at tt t = true -> expired_at tt t' = true.
 Proof. intros H E. apply expired_at_spec in E. apply expired_at_spec. split; [tauto|lia]. Qed.
-
-Lemma never_not_expired t : expired_at never t = false.
-Proof. reflexivity. Qed.
 
 Lemma mk_timeout_finite now t : finite (mk_timeout now t) = true <-> exists z, t = Some z /\ 0 <= z.
 Proof.
@@ -41,231 +39,269 @@ Qed.
 Lemma set_now_id w : set_now w (now w) = w.
 Proof. destruct w; reflexivity. Qed.
 
-Definition dur (m : msg) : Z := match m with Traffic d => Z.of_N d | _ => 0 end.
+(* how long the dispatch of a message keeps the thread: serving a request, or materialising a reply's value *)
+Definition dur (m : msg) : Z := match m with Traffic d => Z.of_N d | Reply _ _ u => Z.of_N u | Stray => 0 end.
 Lemma dur_nonneg m : 0 <= dur m.
 Proof. destruct m; cbn; lia. Qed.
 
+(* ------------------------------------------------------------------ running callbacks *)
+Definition quiet (cbs : list (N * bool)) : Prop := Forall (fun c => snd c = false) cbs.
+Definition at_clock (t : Z) (cbs : list (N * bool)) : list (N * Z) := map (fun c => (fst c, t)) cbs.
+
+Lemma run_all_log t cbs : fst (run_all t cbs) = at_clock t cbs.
+Proof. induction cbs as [|[c r] l IH]; cbn; [reflexivity|]. destruct (run_all t l). cbn in *. now rewrite IH. Qed.
+Lemma run_all_quiet t cbs : quiet cbs -> snd (run_all t cbs) = None.
+Proof.
+  induction 1 as [|[c r] l H _ IH]; cbn; [reflexivity|]. destruct (run_all t l). cbn in *. subst. reflexivity.
+Qed.
+Lemma run_until_quiet t cbs : quiet cbs -> run_until t cbs = (at_clock t cbs, None).
+Proof.
+  induction 1 as [|[c r] l H _ IH]; cbn; [reflexivity|]. cbn in H. subst. now rewrite IH.
+Qed.
+
+(* the callbacks waiting in w are harmless for the loop of __call__ *)
+Definition cb_ok (w : world) : Prop := iso w = true \/ quiet (callbacks (res w)).
+
 (* ------------------------------------------------------------------ __call__ *)
 Lemma ar_call_frame w e v :
-  now (ar_call w e v) = now w /\ queue (ar_call w e v) = queue w /\ tie (ar_call w e v) = tie w /\
-  registered (ar_call w e v) = registered w /\ g_regs (ar_call w e v) = g_regs w /\ g_disp (ar_call w e v) = g_disp w /\
-  ttl (res (ar_call w e v)) = ttl (res w).
-Proof. unfold ar_call. destruct (ar_expired (res w) (now w)); cbn; repeat split. Qed.
+  let w' := fst (ar_call w e v) in
+  now w' = now w /\ queue w' = queue w /\ tie w' = tie w /\ iso w' = iso w /\ atom w' = atom w /\ pend w' = pend w /\
+  registered w' = registered w /\ g_regs w' = g_regs w /\ g_disp w' = g_disp w /\ ttl (res w') = ttl (res w).
+Proof.
+  unfold ar_call. destruct (ar_expired (res w) (now w)); cbn; [repeat split|].
+  destruct (if iso w then _ else _); cbn. repeat split.
+Qed.
 
-Lemma ar_call_expired w e v : ar_expired (res w) (now w) = true -> ar_call w e v = w.
+Lemma ar_call_expired w e v : ar_expired (res w) (now w) = true -> ar_call w e v = (w, None).
 Proof. unfold ar_call. now intros ->. Qed.
 
 Lemma ar_call_accept w e v : ar_expired (res w) (now w) = false ->
-  let w' := ar_call w e v in
-  ready (res w') = true /\ is_exc (res w') = e /\ obj (res w') = v /\ callbacks (res w') = [] /\
-  log w' = log w ++ map (fun c => (c, now w)) (callbacks (res w)) /\ g_got w' = Some (now w).
-Proof. unfold ar_call. intros ->. cbn. repeat split. Qed.
-
-(* ------------------------------------------------------------------ dispatch *)
-Lemma dispatch_frame w m :
-  let w' := dispatch w m in
-  now w' = now w + dur m /\ queue w' = queue w /\ tie w' = tie w /\ g_regs w' = g_regs w /\
-  ttl (res w') = ttl (res w) /\ g_disp w' = g_disp w ++ [(now w, now w + dur m, m)].
+  let w' := fst (ar_call w e v) in
+  ready (res w') = true /\ is_exc (res w') = e /\ obj (res w') = v /\ g_got w' = Some (now w) /\
+  (cb_ok w -> callbacks (res w') = [] /\ log w' = log w ++ at_clock (now w) (callbacks (res w))).
 Proof.
-  unfold dispatch. destruct m as [e v|d|]; cbn.
-  - destruct (registered w); cbn.
-    + pose proof (ar_call_frame (set_registered w false) e v) as (A & B & C & D & E & F & G). cbn in *.
-      rewrite A, B, C, E, F, G. repeat split; try lia. now rewrite Z.add_0_r.
-    + rewrite Z.add_0_r. repeat split.
-  - repeat split.
-  - rewrite Z.add_0_r. repeat split.
+  unfold ar_call, cb_ok. intros ->. destruct (iso w) eqn:I.
+  - pose proof (run_all_log (now w) (callbacks (res w))) as L. destruct (run_all _ _) as [l x]. cbn in *. subst.
+    repeat split.
+  - destruct (run_until (now w) (callbacks (res w))) as [l x] eqn:R. cbn. repeat split;
+      destruct H as [H|H]; try discriminate; rewrite (run_until_quiet _ _ H) in R; injection R as <- <-; reflexivity.
 Qed.
 
-(* what a dispatch does to the result: only a still-registered reply that is not late changes it *)
-Lemma dispatch_result w m :
-  let w' := dispatch w m in
+Lemma ar_call_exc_ready w e v c : snd (ar_call w e v) = Some c -> ready (res (fst (ar_call w e v))) = true.
+Proof.
+  unfold ar_call. destruct (ar_expired (res w) (now w)); [discriminate|]. destruct (if iso w then _ else _). reflexivity.
+Qed.
+
+(* ------------------------------------------------------------------ dispatch *)
+Lemma dispatch_frame w r m :
+  let w' := fst (dispatch w r m) in
+  now w' = now w + dur m /\ queue w' = queue w /\ tie w' = tie w /\ iso w' = iso w /\ atom w' = atom w /\ pend w' = pend w /\
+  g_regs w' = g_regs w /\ ttl (res w') = ttl (res w) /\ g_disp w' = g_disp w ++ [(r, now w, now w + dur m, m)].
+Proof.
+  unfold dispatch. destruct m as [e v u|d|]; cbn [dur].
+  - destruct (registered w); cbn.
+    + pose proof (ar_call_frame (set_registered (set_now w (now w + Z.of_N u)) false) e v) as (A & B & C & D & E & F & _ & G & H & I).
+      destruct (ar_call _ e v) as [w1 x]. cbn in *. rewrite A, B, C, D, E, F, G, H, I. repeat split.
+    + repeat split.
+  - cbn. repeat split.
+  - cbn. rewrite Z.add_0_r. repeat split.
+Qed.
+
+(* what a dispatch does to the result: only a still-registered reply changes it, and only if the clock AFTER its value
+   was materialised is still before the expiry *)
+Lemma dispatch_result w r m :
+  let w' := fst (dispatch w r m) in
   match m with
-  | Reply e v =>
+  | Reply e v u =>
       if registered w then
         registered w' = false /\
-        (if ar_expired (res w) (now w) then res w' = res w /\ log w' = log w /\ g_got w' = g_got w
-         else ready (res w') = true /\ is_exc (res w') = e /\ obj (res w') = v /\ callbacks (res w') = [] /\
-              log w' = log w ++ map (fun c => (c, now w)) (callbacks (res w)) /\ g_got w' = Some (now w))
-      else res w' = res w /\ log w' = log w /\ registered w' = false /\ g_got w' = g_got w
-  | _ => res w' = res w /\ log w' = log w /\ registered w' = registered w /\ g_got w' = g_got w
+        (if ar_expired (res w) (now w + Z.of_N u)
+         then res w' = res w /\ log w' = log w /\ g_got w' = g_got w /\ snd (dispatch w r m) = None
+         else ready (res w') = true /\ is_exc (res w') = e /\ obj (res w') = v /\ g_got w' = Some (now w + Z.of_N u) /\
+              (cb_ok w -> callbacks (res w') = [] /\ log w' = log w ++ at_clock (now w + Z.of_N u) (callbacks (res w))))
+      else res w' = res w /\ log w' = log w /\ registered w' = false /\ g_got w' = g_got w /\ snd (dispatch w r m) = None
+  | _ => res w' = res w /\ log w' = log w /\ registered w' = registered w /\ g_got w' = g_got w /\ snd (dispatch w r m) = None
   end.
 Proof.
-  unfold dispatch. destruct m as [e v|d|]; cbn; [|repeat split..].
+  unfold dispatch. destruct m as [e v u|d|]; cbn; [|repeat split..].
   destruct (registered w) eqn:R; cbn; [|rewrite R; repeat split].
-  destruct (ar_expired (res w) (now w)) eqn:X.
-  - rewrite ar_call_expired by exact X. cbn. repeat split.
-  - pose proof (ar_call_accept (set_registered w false) e v X) as (A & B & C & D & E & F).
-    pose proof (ar_call_frame (set_registered w false) e v) as (_ & _ & _ & G & _). cbn in *.
-    repeat split; assumption.
+  set (w0 := set_registered (set_now w (now w + Z.of_N u)) false).
+  assert (ar_expired (res w0) (now w0) = ar_expired (res w) (now w + Z.of_N u)) as EX by reflexivity.
+  pose proof (ar_call_frame w0 e v) as (_ & _ & _ & _ & _ & _ & G & _). cbn zeta in G.
+  destruct (ar_expired (res w) (now w + Z.of_N u)) eqn:X.
+  - rewrite (ar_call_expired w0 e v) by now rewrite EX. cbn. repeat split.
+  - pose proof (ar_call_accept w0 e v) as A. rewrite EX in A. specialize (A eq_refl). cbn zeta in A.
+    destruct (ar_call w0 e v) as [w1 x]. cbn in *. destruct A as (A1 & A2 & A3 & A4 & A5). repeat split; auto; apply A5; exact H.
+Qed.
+
+Lemma dispatch_exc_ready w r m c : snd (dispatch w r m) = Some c -> ready (res (fst (dispatch w r m))) = true.
+Proof.
+  unfold dispatch. destruct m as [e v u|d|]; cbn; try discriminate.
+  destruct (registered w); cbn; [|discriminate].
+  pose proof (ar_call_exc_ready (set_registered (set_now w (now w + Z.of_N u)) false) e v c) as H.
+  destruct (ar_call _ e v). cbn in *. exact H.
 Qed.
 
 (* ------------------------------------------------------------------ serve *)
 Definition head_after (w : world) (t : Z) : Prop :=
-  match queue w with [] => True | (a, _) :: _ => t < a \/ (t = a /\ tie w = false) end.
+  match queue w with [] => True | (a, _, _) :: _ => t < a \/ (t = a /\ tie w = false) end.
+Definition res_of_exc (x : option N) : pollres := match x with Some c => PExc c | None => PData end.
 
 Lemma serve_spec tt w w' r : serve_tt tt w = (w', r) ->
-  (r = PData /\ exists a m q, queue w = (a, m) :: q /\
+  (exists a c m q, queue w = (a, c, m) :: q /\
      let t' := Z.max (now w) a in
      (finite tt = true -> now w < tmax tt -> t' < tmax tt \/ (tie w = true /\ t' = tmax tt)) /\
      (finite tt = true -> tmax tt <= now w -> t' = now w) /\
-     w' = dispatch (set_queue (set_now w t') q) m)
+     let w0 := set_queue (set_now w (Z.max t' c)) q in
+     w' = fst (dispatch w0 t' m) /\ r = res_of_exc (snd (dispatch w0 t' m)))
   \/ (r = PNothing /\ finite tt = true /\ w' = set_now w (Z.max (now w) (tmax tt)) /\ head_after w (Z.max (now w) (tmax tt)))
   \/ (r = PHang /\ finite tt = false /\ queue w = [] /\ w' = w).
 Proof.
   unfold serve_tt, chan_poll, timeleft, timeout_timeleft, head_after.
-  destruct (queue w) as [|[a m] q] eqn:Q.
+  destruct (queue w) as [|[[a c] m] q] eqn:Q.
   - destruct (finite tt) eqn:F; intros [= <- <-].
     + right; left. repeat split. f_equal. lia.
     + right; right. repeat split.
-  - destruct (Z.leb_spec a (now w)) as [L|L].
-    + rewrite Q. intros [= <- <-]. left. split; [reflexivity|]. exists a, m, q. split; [reflexivity|].
-      cbn zeta. replace (Z.max (now w) a) with (now w) by lia. rewrite set_now_id. repeat split; auto; lia.
+  - match goal with |- _ -> ?G => assert (forall t', now w <= t' -> t' = Z.max (now w) a ->
+              (finite tt = true -> now w < tmax tt -> t' < tmax tt \/ tie w = true /\ t' = tmax tt) ->
+              (finite tt = true -> tmax tt <= now w -> t' = now w) ->
+              match queue (set_now w t') with
+              | [] => (set_now w t', PNothing)
+              | (_, c0, m0) :: q0 =>
+                  match dispatch (set_queue (set_now (set_now w t') (Z.max (now (set_now w t')) c0)) q0) (now (set_now w t')) m0 with
+                  | (w2, None) => (w2, PData) | (w2, Some cb) => (w2, PExc cb) end
+              end = (w', r) -> G) as K end.
+    { intros t' Hle Ht' B1 B2. cbn [queue set_now now]. rewrite Q. intros E. left. exists a, c, m, q. split; [reflexivity|].
+      cbn zeta. rewrite <- Ht'. split; [exact B1|]. split; [exact B2|].
+      replace (set_now (set_now w t') (Z.max t' c)) with (set_now w (Z.max t' c)) in E by (destruct w; reflexivity).
+      destruct (dispatch _ t' m) as [w2 [cb|]]; injection E as <- <-; split; reflexivity. }
+    destruct (Z.leb_spec a (now w)) as [L|L].
+    + intros E. apply (K (now w)); [lia|lia|intros; lia|intros; lia|]. rewrite set_now_id. exact E.
     + destruct (finite tt) eqn:F.
       * destruct ((a <? now w + Z.max 0 (tmax tt - now w)) || ((a =? now w + Z.max 0 (tmax tt - now w)) && tie w)) eqn:C.
-        -- cbn [queue set_now]. rewrite Q. intros [= <- <-]. left. split; [reflexivity|]. exists a, m, q. split; [reflexivity|].
-           cbn zeta. replace (Z.max (now w) a) with a by lia. repeat split; try lia.
+        -- intros E. apply (K a); [lia|lia| | |exact E]; intros; destruct (tie w); cbn in C; lia.
         -- intros [= <- <-]. right; left. repeat split. { f_equal. lia. }
            destruct (tie w); cbn in C; [left|]; lia.
-      * cbn [queue set_now]. rewrite Q. intros [= <- <-]. left. split; [reflexivity|]. exists a, m, q. split; [reflexivity|].
-        cbn zeta. replace (Z.max (now w) a) with a by lia. repeat split; intros; discriminate.
-Qed.
-
-(* ------------------------------------------------------------------ the invariant of reachable worlds *)
-Definition cb_times (tg : Z) (regs : list (N * Z)) : list (N * Z) := map (fun r => (fst r, Z.max (snd r) tg)) regs.
-
-Record inv (w : world) : Prop := {
-  inv_reg : ready (res w) = true -> registered w = false;
-  inv_pending : ready (res w) = false -> log w = [] /\ callbacks (res w) = map fst (g_regs w) /\ g_got w = None;
-  inv_ready : ready (res w) = true ->
-              callbacks (res w) = [] /\ exists tg, g_got w = Some tg /\ tg <= now w /\ log w = cb_times tg (g_regs w);
-  inv_regs : Forall (fun r => snd r <= now w) (g_regs w)
-}.
-
-Lemma inv_transfer w w' :
-  res w' = res w -> log w' = log w -> g_regs w' = g_regs w -> g_got w' = g_got w ->
-  (registered w' = registered w \/ registered w' = false) -> now w <= now w' -> inv w -> inv w'.
-Proof.
-  intros R L G T Rg N [I1 I2 I3 I4]. split; rewrite ?R, ?L, ?G, ?T.
-  - intros H. destruct Rg as [-> | ->]; auto.
-  - exact I2.
-  - intros H. destruct (I3 H) as (A & tg & B & C & D). split; [exact A|]. exists tg. repeat split; auto; lia.
-  - eapply Forall_impl; [|exact I4]. cbn. intros; lia.
-Qed.
-
-Lemma inv_set_now w t : now w <= t -> inv w -> inv (set_now w t).
-Proof. intros H. apply inv_transfer; cbn; auto. Qed.
-Lemma inv_set_queue w q : inv w -> inv (set_queue w q).
-Proof. apply inv_transfer; cbn; auto; lia. Qed.
-
-Lemma cb_times_now regs t : Forall (fun r => snd r <= t) regs -> map (fun c => (c, t)) (map fst regs) = cb_times t regs.
-Proof.
-  unfold cb_times. induction 1 as [|[c tr] l H _ IH]; cbn; [reflexivity|]. rewrite IH. cbn in H. repeat f_equal. lia.
-Qed.
-
-Lemma inv_dispatch w m : inv w -> inv (dispatch w m).
-Proof.
-  intros I. pose proof (dispatch_frame w m) as (N & _ & _ & G & _). pose proof (dispatch_result w m) as R. cbn zeta in *.
-  pose proof (dur_nonneg m) as D.
-  assert (forall rg, res (dispatch w m) = res w /\ log (dispatch w m) = log w /\ registered (dispatch w m) = rg /\ g_got (dispatch w m) = g_got w ->
-          (rg = registered w \/ rg = false) -> inv (dispatch w m)) as Same.
-  { intros rg (A & B & C & E) Hrg. apply (inv_transfer w); auto; [|lia]. rewrite C. exact Hrg. }
-  destruct m as [e v|d|]; [|apply (Same _ R); auto..].
-  destruct (registered w) eqn:Rg; [|apply (Same _ R); auto].
-  destruct R as (R0 & R). destruct (ar_expired (res w) (now w)) eqn:X.
-  - destruct R as (A & B & C). apply (inv_transfer w); auto; lia.
-  - destruct R as (A & B & C & E & F & H).
-    assert (ready (res w) = false) as NR.
-    { destruct (ready (res w)) eqn:Y; [|reflexivity]. destruct I as [I1 _ _ _]. rewrite (I1 Y) in Rg. discriminate. }
-    destruct I as [_ I2 _ I4]. destruct (I2 NR) as (L0 & CB & _).
-    split; rewrite ?G, ?N.
-    + auto.
-    + rewrite A. discriminate.
-    + intros _. split; [exact E|]. exists (now w). repeat split; [exact H|lia|].
-      rewrite F, L0, CB. cbn. now apply cb_times_now.
-    + eapply Forall_impl; [|exact I4]. cbn; intros; lia.
+      * intros E. apply (K a); [lia|lia|discriminate|discriminate|exact E].
 Qed.
 
 Lemma serve_now_le tt w w' r : serve_tt tt w = (w', r) -> now w <= now w'.
 Proof.
-  intros H. apply serve_spec in H as [(_ & a & m & q & _ & _ & _ & ->)|[(_ & _ & -> & _)|(_ & _ & _ & ->)]].
-  - pose proof (dispatch_frame (set_queue (set_now w (Z.max (now w) a)) q) m) as (N & _). cbn zeta in N. rewrite N. cbn.
-    pose proof (dur_nonneg m). lia.
+  intros H. apply serve_spec in H as [(a & c & m & q & _ & _ & _ & -> & _)|[(_ & _ & -> & _)|(_ & _ & _ & ->)]].
+  - pose proof (dispatch_frame (set_queue (set_now w (Z.max (Z.max (now w) a) c)) q) (Z.max (now w) a) m) as (N & _).
+    cbn zeta in N. rewrite N. cbn. pose proof (dur_nonneg m). lia.
   - cbn. lia.
   - lia.
 Qed.
 
-Lemma inv_serve tt w w' r : serve_tt tt w = (w', r) -> inv w -> inv w'.
+(* ------------------------------------------------------------------ predicates closed under serving *)
+Section ClosedServe.
+  Variable P : world -> Prop.
+  Hypothesis P_now : forall w t, now w <= t -> P w -> P (set_now w t).
+  Hypothesis P_serve : forall tt w w' r, serve_tt tt w = (w', r) -> P w -> P w'.
+
+  Lemma closed_poll_all0 w : P w -> P (fst (poll_all0 w)).
+  Proof. unfold poll_all0. destruct (serve_tt _ w) as [w' r] eqn:E. intros I. pose proof (P_serve _ _ _ _ E I). destruct r; exact H. Qed.
+  Lemma closed_q_ready w : P w -> P (fst (q_ready w)).
+  Proof.
+    intros I. unfold q_ready. destruct (ready (res w)); [exact I|]. destruct (expired_at _ _); [exact I|].
+    pose proof (closed_poll_all0 w I). destruct (poll_all0 w) as [w' [c|]]; exact H.
+  Qed.
+  Lemma closed_q_error w : P w -> P (fst (q_error w)).
+  Proof. intros I. unfold q_error. pose proof (closed_q_ready w I). destruct (q_ready w) as [w' o]. destruct o; exact H. Qed.
+  Lemma closed_wait_loop fuel : forall w, P w -> P (fst (wait_loop fuel w)).
+  Proof.
+    induction fuel as [|f IH]; intros w I; cbn [wait_loop].
+    - destruct (ready (res w)); [exact I|]. destruct (expired_at _ _); exact I.
+    - destruct (ready (res w)); [exact I|]. destruct (expired_at _ _); [exact I|].
+      destruct (serve_tt (ttl (res w)) w) as [w1 r] eqn:E. pose proof (P_serve _ _ _ _ E I) as I1.
+      destruct r; try (apply IH; exact I1); exact I1.
+  Qed.
+  Definition is_reg_act (a : action) : bool :=
+    match a with AddCb _ _ | AddCbTest _ _ | AddCbCommit | SetExpiry _ => true | _ => false end.
+  Lemma closed_step w a : P w -> (is_reg_act a = true -> P (fst (step w a))) -> P (fst (step w a)).
+  Proof.
+    intros I HA. destruct a as [d|c r|c r| |t| | | | | |t]; try (apply HA; reflexivity); cbn [step].
+    - cbn. apply P_now; [lia|exact I].
+    - now apply closed_q_ready.
+    - now apply closed_q_error.
+    - exact I.
+    - unfold q_value, ar_wait. pose proof (closed_wait_loop (wait_fuel w) w I) as A.
+      destruct (wait_loop (wait_fuel w) w) as [w' o]. cbn in *. destruct o; exact A.
+    - unfold ar_wait. now apply closed_wait_loop.
+    - destruct (serve_tt (mk_timeout (now w) t) w) as [w' r] eqn:E.
+      pose proof (P_serve _ _ _ _ E I). destruct r; cbn; auto.
+  Qed.
+End ClosedServe.
+
+Lemma serve_from_prims (P : world -> Prop) :
+  (forall w t, now w <= t -> P w -> P (set_now w t)) -> (forall w q, P w -> P (set_queue w q)) ->
+  (forall w r m, P w -> P (fst (dispatch w r m))) ->
+  forall tt w w' r, serve_tt tt w = (w', r) -> P w -> P w'.
 Proof.
-  intros H I. apply serve_spec in H as [(_ & a & m & q & _ & _ & _ & ->)|[(_ & _ & -> & _)|(_ & _ & _ & ->)]].
-  - apply inv_dispatch, inv_set_queue, inv_set_now; [lia|exact I].
-  - apply inv_set_now; [lia|exact I].
+  intros P_now P_queue P_dispatch tt w w' r H I.
+  apply serve_spec in H as [(a & c & m & q & _ & _ & _ & -> & _)|[(_ & _ & -> & _)|(_ & _ & _ & ->)]].
+  - apply P_dispatch, P_queue, P_now; [lia|exact I].
+  - apply P_now; [lia|exact I].
   - exact I.
 Qed.
 
-Lemma inv_add_callback w c : inv w -> inv (ar_add_callback w c).
+Definition is_set_expiry (a : action) : bool := match a with SetExpiry _ => true | _ => false end.
+Definition no_set_expiry (acts : list action) : Prop := forallb (fun a => negb (is_set_expiry a)) acts = true.
+
+(* a predicate kept by the primitives is kept by every history (every history without set_expiry, if set_expiry breaks it) *)
+Lemma reg_step (P : world -> Prop) :
+  (forall w c r, P w -> P (fst (ar_add_callback w c r))) -> (forall w c r, P w -> P (ar_append_callback w c r)) ->
+  (forall w p, P w -> P (set_pend w p)) ->
+  forall w a, P w -> is_reg_act a = true -> is_set_expiry a = false -> P (fst (step w a)).
 Proof.
-  intros [I1 I2 I3 I4]. unfold ar_add_callback. destruct (ready (res w)) eqn:R; split; cbn; rewrite ?R.
-  - exact I1.
-  - discriminate.
-  - intros _. destruct (I3 eq_refl) as (A & tg & B & C & D). split; [exact A|]. exists tg. repeat split; auto.
-    rewrite D. unfold cb_times. rewrite map_app. cbn. repeat f_equal. lia.
-  - apply Forall_app. split; [exact I4|]. constructor; [cbn; lia|constructor].
-  - discriminate.
-  - intros _. destruct (I2 eq_refl) as (A & B & C). repeat split; auto. rewrite map_app, B. reflexivity.
-  - discriminate.
-  - apply Forall_app. split; [exact I4|]. constructor; [cbn; lia|constructor].
+  intros Hadd Happ Hpend w a I R NS. destruct a as [d|c r|c r| |t| | | | | |t]; try discriminate; cbn [step].
+  - pose proof (Hadd w c r I). destruct (ar_add_callback w c r). exact H.
+  - destruct (pend w); [exact I|]. destruct (atom w); [now apply Hpend|].
+    destruct (ready (res w)); [|now apply Hpend]. pose proof (Hadd w c r I). destruct (ar_add_callback w c r). exact H.
+  - destruct (pend w) as [[c r]|]; [|exact I]. destruct (atom w).
+    + pose proof (Hadd (set_pend w None) c r (Hpend _ _ I)). destruct (ar_add_callback _ c r). exact H.
+    + cbn. apply Happ, Hpend, I.
 Qed.
 
-Lemma inv_set_expiry w t : inv w -> inv (ar_set_expiry w t).
-Proof. intros [I1 I2 I3 I4]. unfold ar_set_expiry. split; cbn; auto. Qed.
-
-Lemma poll_all0_now_le w : now w <= now (poll_all0 w).
-Proof. unfold poll_all0. destruct (serve_tt _ w) eqn:E. cbn. eapply serve_now_le; eauto. Qed.
-Lemma inv_poll_all0 w : inv w -> inv (poll_all0 w).
-Proof. unfold poll_all0. destruct (serve_tt _ w) eqn:E. cbn. eapply inv_serve; eauto. Qed.
-
-Lemma q_ready_now_le w : now w <= now (fst (q_ready w)).
+Lemma closed_run (P : world -> Prop) :
+  (forall w t, now w <= t -> P w -> P (set_now w t)) ->
+  (forall tt w w' r, serve_tt tt w = (w', r) -> P w -> P w') ->
+  (forall w c r, P w -> P (fst (ar_add_callback w c r))) -> (forall w c r, P w -> P (ar_append_callback w c r)) ->
+  (forall w p, P w -> P (set_pend w p)) ->
+  forall acts w, no_set_expiry acts -> P w -> P (run_w w acts).
 Proof.
-  unfold q_ready. destruct (ready (res w)); [cbn; lia|]. destruct (expired_at _ _); [cbn; lia|]. cbn. apply poll_all0_now_le.
+  intros H1 H2 H3 H4 H5. unfold run_w, no_set_expiry. induction acts as [|a rest IH]; intros w N I; cbn [fold_left]; [exact I|].
+  cbn in N. apply andb_prop in N as (Na & N). apply IH; [exact N|].
+  apply closed_step; auto. intros R. apply reg_step; auto. now destruct (is_set_expiry a).
 Qed.
-Lemma inv_q_ready w : inv w -> inv (fst (q_ready w)).
+Lemma closed_run_all (P : world -> Prop) :
+  (forall w t, now w <= t -> P w -> P (set_now w t)) ->
+  (forall tt w w' r, serve_tt tt w = (w', r) -> P w -> P w') ->
+  (forall w c r, P w -> P (fst (ar_add_callback w c r))) -> (forall w c r, P w -> P (ar_append_callback w c r)) ->
+  (forall w p, P w -> P (set_pend w p)) -> (forall w t, P w -> P (ar_set_expiry w t)) ->
+  forall acts w, P w -> P (run_w w acts).
 Proof.
-  intros I. unfold q_ready. destruct (ready (res w)); [exact I|]. destruct (expired_at _ _); [exact I|]. cbn. now apply inv_poll_all0.
-Qed.
-
-Lemma wait_loop_inv fuel : forall w, inv w -> inv (fst (wait_loop fuel w)) /\ now w <= now (fst (wait_loop fuel w)).
-Proof.
-  induction fuel as [|f IH]; intros w I; cbn [wait_loop].
-  - destruct (ready (res w)); [split; [exact I|cbn; lia]|]. destruct (expired_at _ _); split; try exact I; cbn; lia.
-  - destruct (ready (res w)); [split; [exact I|cbn; lia]|]. destruct (expired_at _ _); [split; [exact I|cbn; lia]|].
-    destruct (serve_tt (ttl (res w)) w) as [w1 r] eqn:E.
-    pose proof (serve_now_le _ _ _ _ E) as N. pose proof (inv_serve _ _ _ _ E I) as I1.
-    destruct r; try (destruct (IH w1 I1) as (A & B); split; [exact A|lia]).
-    cbn. split; [exact I1|exact N].
+  intros H1 H2 H3 H4 H5 H6. unfold run_w. induction acts as [|a rest IH]; intros w I; cbn [fold_left]; [exact I|].
+  apply IH. apply closed_step; auto. intros R. destruct (is_set_expiry a) eqn:S.
+  - destruct a; try discriminate. cbn. now apply H6.
+  - apply reg_step; auto.
 Qed.
 
-Lemma step_inv w a : inv w -> inv (fst (step w a)) /\ now w <= now (fst (step w a)).
-Proof.
-  intros I. destruct a as [d|c|t| | | | | |t]; cbn [step].
-  - cbn. split; [apply inv_set_now; [lia|exact I]|lia].
-  - cbn. split; [now apply inv_add_callback|]. unfold ar_add_callback. destruct (ready (res w)); cbn; lia.
-  - cbn. split; [now apply inv_set_expiry|lia].
-  - pose proof (inv_q_ready w I). pose proof (q_ready_now_le w). destruct (q_ready w). cbn in *. auto.
-  - unfold q_error. pose proof (inv_q_ready w I). pose proof (q_ready_now_le w). destruct (q_ready w). cbn in *. auto.
-  - cbn. split; [exact I|lia].
-  - unfold q_value, ar_wait. pose proof (wait_loop_inv (wait_fuel w) w I) as (A & B).
-    destruct (wait_loop (wait_fuel w) w) as [w' o]. cbn in *. destruct o; cbn; auto.
-  - unfold ar_wait. apply wait_loop_inv, I.
-  - destruct (serve_tt (mk_timeout (now w) t) w) as [w' r] eqn:E.
-    pose proof (serve_now_le _ _ _ _ E). pose proof (inv_serve _ _ _ _ E I). destruct r; cbn; auto.
-Qed.
-
-Lemma run_w_inv acts : forall w, inv w -> inv (run_w w acts) /\ now w <= now (run_w w acts).
-Proof.
-  unfold run_w. induction acts as [|a rest IH]; intros w I; cbn [fold_left].
-  - split; [exact I|lia].
-  - destruct (step_inv w a I) as (A & B). destruct (IH _ A) as (C & D). split; [exact C|lia].
-Qed.
+Lemma closed_run_p (P : world -> Prop) :
+  (forall w t, now w <= t -> P w -> P (set_now w t)) -> (forall w q, P w -> P (set_queue w q)) ->
+  (forall w r m, P w -> P (fst (dispatch w r m))) ->
+  (forall w c r, P w -> P (fst (ar_add_callback w c r))) -> (forall w c r, P w -> P (ar_append_callback w c r)) ->
+  (forall w p, P w -> P (set_pend w p)) ->
+  forall acts w, no_set_expiry acts -> P w -> P (run_w w acts).
+Proof. intros H1 H2 H3. apply closed_run; [exact H1|]. now apply (serve_from_prims P). Qed.
+Lemma closed_run_all_p (P : world -> Prop) :
+  (forall w t, now w <= t -> P w -> P (set_now w t)) -> (forall w q, P w -> P (set_queue w q)) ->
+  (forall w r m, P w -> P (fst (dispatch w r m))) ->
+  (forall w c r, P w -> P (fst (ar_add_callback w c r))) -> (forall w c r, P w -> P (ar_append_callback w c r)) ->
+  (forall w p, P w -> P (set_pend w p)) -> (forall w t, P w -> P (ar_set_expiry w t)) ->
+  forall acts w, P w -> P (run_w w acts).
+Proof. intros H1 H2 H3. apply closed_run_all; [exact H1|]. now apply (serve_from_prims P). Qed.
 
 Lemma run_hist_run_w acts : forall w, fst (run_hist w acts) = run_w w acts.
 Proof.
@@ -273,88 +309,45 @@ Proof.
   destruct (step w a) as [w1 o]. specialize (IH w1). destruct (run_hist w1 rest). cbn in *. exact IH.
 Qed.
 
-Lemma inv_fresh t0 tb q : inv (fresh t0 tb q).
-Proof. split; cbn; try discriminate; auto. Qed.
-Lemma inv_async_request t sd w : g_regs w = [] -> log w = [] -> g_got w = None -> inv (async_request t sd w).
+(* ------------------------------------------------------------------ facts kept by every history *)
+(* the clock never goes back; the two generated facts and the tie flag are constants *)
+Definition same_flags (w0 w : world) : Prop := iso w = iso w0 /\ atom w = atom w0 /\ tie w = tie w0 /\ now w0 <= now w.
+Lemma same_flags_run acts w : same_flags w (run_w w acts).
 Proof.
-  intros G L T. assert (inv (set_now (set_registered (set_res w new_ar) true) (now w + Z.of_N sd))) as I.
-  { split; cbn; try discriminate; rewrite ?G, ?L, ?T; auto. }
-  unfold async_request. destruct t; [apply inv_set_expiry|]; exact I.
+  apply (closed_run_all_p (same_flags w)); unfold same_flags.
+  - intros w0 t H (A & B & C & D). cbn. repeat split; auto. lia.
+  - intros w0 q (A & B & C & D). cbn. auto.
+  - intros w0 r m (A & B & C & D). pose proof (dispatch_frame w0 r m) as (N & _ & T & I & At & _). cbn zeta in *.
+    pose proof (dur_nonneg m). rewrite N, T, I, At. repeat split; auto. lia.
+  - intros w0 c r (A & B & C & D). unfold ar_add_callback. destruct (ready (res w0)); cbn; auto.
+  - intros w0 c r (A & B & C & D). cbn. auto.
+  - intros w0 p (A & B & C & D). cbn. auto.
+  - intros w0 t (A & B & C & D). cbn. auto.
+  - repeat split; lia.
 Qed.
 
-(* ------------------------------------------------------------------ predicates closed under the primitives *)
-Section Closed.
-  Variable P : world -> Prop.
-  Hypothesis P_now : forall w t, now w <= t -> P w -> P (set_now w t).
-  Hypothesis P_queue : forall w q, P w -> P (set_queue w q).
-  Hypothesis P_dispatch : forall w m, P w -> P (dispatch w m).
-
-  Lemma closed_serve tt w w' r : serve_tt tt w = (w', r) -> P w -> P w'.
-  Proof.
-    intros H I. apply serve_spec in H as [(_ & a & m & q & _ & _ & _ & ->)|[(_ & _ & -> & _)|(_ & _ & _ & ->)]].
-    - apply P_dispatch, P_queue, P_now; [lia|exact I].
-    - apply P_now; [lia|exact I].
-    - exact I.
-  Qed.
-  Lemma closed_poll_all0 w : P w -> P (poll_all0 w).
-  Proof. unfold poll_all0. destruct (serve_tt _ w) eqn:E. cbn. eapply closed_serve; eauto. Qed.
-  Lemma closed_q_ready w : P w -> P (fst (q_ready w)).
-  Proof.
-    intros I. unfold q_ready. destruct (ready (res w)); [exact I|]. destruct (expired_at _ _); [exact I|]. cbn. now apply closed_poll_all0.
-  Qed.
-  Lemma closed_wait_loop fuel : forall w, P w -> P (fst (wait_loop fuel w)).
-  Proof.
-    induction fuel as [|f IH]; intros w I; cbn [wait_loop].
-    - destruct (ready (res w)); [exact I|]. destruct (expired_at _ _); exact I.
-    - destruct (ready (res w)); [exact I|]. destruct (expired_at _ _); [exact I|].
-      destruct (serve_tt (ttl (res w)) w) as [w1 r] eqn:E. pose proof (closed_serve _ _ _ _ E I) as I1.
-      destruct r; try (apply IH; exact I1). exact I1.
-  Qed.
-  Lemma closed_step w a : P w ->
-    (forall c, a = AddCb c -> P (ar_add_callback w c)) -> (forall t, a = SetExpiry t -> P (ar_set_expiry w t)) ->
-    P (fst (step w a)).
-  Proof.
-    intros I HA HS. destruct a as [d|c|t| | | | | |t]; cbn [step].
-    - cbn. apply P_now; [lia|exact I].
-    - cbn. now apply HA.
-    - cbn. now apply HS.
-    - pose proof (closed_q_ready w I). destruct (q_ready w). exact H.
-    - unfold q_error. pose proof (closed_q_ready w I). destruct (q_ready w). exact H.
-    - exact I.
-    - unfold q_value, ar_wait. pose proof (closed_wait_loop (wait_fuel w) w I) as A.
-      destruct (wait_loop (wait_fuel w) w) as [w' o]. cbn in *. destruct o; exact A.
-    - unfold ar_wait. now apply closed_wait_loop.
-    - destruct (serve_tt (mk_timeout (now w) t) w) as [w' r] eqn:E.
-      pose proof (closed_serve _ _ _ _ E I). destruct r; cbn; auto.
-  Qed.
-End Closed.
-
-Definition is_set_expiry (a : action) : bool := match a with SetExpiry _ => true | _ => false end.
-Definition no_set_expiry (acts : list action) : Prop := forallb (fun a => negb (is_set_expiry a)) acts = true.
-
-Lemma closed_run (P : world -> Prop) :
-  (forall w t, now w <= t -> P w -> P (set_now w t)) -> (forall w q, P w -> P (set_queue w q)) ->
-  (forall w m, P w -> P (dispatch w m)) -> (forall w c, P w -> P (ar_add_callback w c)) ->
-  forall acts w, no_set_expiry acts -> P w -> P (run_w w acts).
+(* a ready result is no longer registered with the connection: a second reply cannot reach it *)
+Definition inv0 (w : world) : Prop := ready (res w) = true -> registered w = false.
+Lemma inv0_run acts w : inv0 w -> inv0 (run_w w acts).
 Proof.
-  intros H1 H2 H3 H4. unfold run_w, no_set_expiry. induction acts as [|a rest IH]; intros w N I; cbn [fold_left]; [exact I|].
-  cbn in N. apply andb_prop in N as (Na & N). apply IH; [exact N|].
-  apply closed_step; auto. intros t ->. discriminate.
-Qed.
-Lemma closed_run_all (P : world -> Prop) :
-  (forall w t, now w <= t -> P w -> P (set_now w t)) -> (forall w q, P w -> P (set_queue w q)) ->
-  (forall w m, P w -> P (dispatch w m)) -> (forall w c, P w -> P (ar_add_callback w c)) ->
-  (forall w t, P w -> P (ar_set_expiry w t)) ->
-  forall acts w, P w -> P (run_w w acts).
-Proof.
-  intros H1 H2 H3 H4 H5. unfold run_w. induction acts as [|a rest IH]; intros w I; cbn [fold_left]; [exact I|].
-  apply IH. apply closed_step; auto.
+  apply (closed_run_all_p inv0); unfold inv0.
+  - intros; cbn in *; auto.
+  - intros; cbn in *; auto.
+  - intros w0 r m I. pose proof (dispatch_result w0 r m) as R. cbn zeta in R. destruct m as [e v u|d|].
+    + destruct (registered w0); [now destruct R|]. now destruct R as (_ & _ & -> & _).
+    + destruct R as (-> & _ & -> & _). exact I.
+    + destruct R as (-> & _ & -> & _). exact I.
+  - intros w0 c r I. unfold ar_add_callback. destruct (ready (res w0)) eqn:Y; cbn; rewrite ?Y; auto.
+  - intros w0 c r I. cbn. auto.
+  - intros; cbn in *; auto.
+  - intros; cbn in *; auto.
 Qed.
 
-Lemma dispatch_unreg w m : registered w = false ->
-  res (dispatch w m) = res w /\ registered (dispatch w m) = false /\ log (dispatch w m) = log w /\ g_got (dispatch w m) = g_got w.
+Lemma dispatch_unreg w r m : registered w = false ->
+  let w' := fst (dispatch w r m) in
+  res w' = res w /\ registered w' = false /\ log w' = log w /\ g_got w' = g_got w.
 Proof.
-  intros R. pose proof (dispatch_result w m) as H. cbn zeta in H. destruct m; rewrite ?R in H; intuition congruence.
+  intros R. pose proof (dispatch_result w r m) as H. cbn zeta in *. destruct m; rewrite ?R in H; intuition congruence.
 Qed.
 
 (* ------------------------------------------------------------------ 1a. a value, once there, stays *)
@@ -363,11 +356,13 @@ Definition has_value (e : bool) (v : Z) (w : world) : Prop :=
 
 Lemma has_value_run e v acts w : has_value e v w -> has_value e v (run_w w acts).
 Proof.
-  apply (closed_run_all (has_value e v)); unfold has_value.
+  apply (closed_run_all_p (has_value e v)); unfold has_value.
   - intros; cbn; auto.
   - intros; cbn; auto.
-  - intros w0 m (A & B & C & D). destruct (dispatch_unreg w0 m D) as (E & F & _). rewrite E. auto.
-  - intros w0 c (A & B & C & D). unfold ar_add_callback. rewrite A. cbn. auto.
+  - intros w0 r m (A & B & C & D). destruct (dispatch_unreg w0 r m D) as (E & F & _). cbn zeta in *. rewrite E. auto.
+  - intros w0 c r (A & B & C & D). unfold ar_add_callback. rewrite A. cbn. auto.
+  - intros w0 c r (A & B & C & D). cbn. auto.
+  - intros; cbn; auto.
   - intros w0 t (A & B & C & D). cbn. auto.
 Qed.
 
@@ -388,10 +383,10 @@ Proof.
   destruct (expired_at _ _); split; auto; try discriminate. intros (_ & ?); discriminate.
 Qed.
 
-Theorem got_final w e v acts : inv w -> outcome_of w = Got e v -> outcome_of (run_w w acts) = Got e v.
+Theorem got_final w e v acts : inv0 w -> outcome_of w = Got e v -> outcome_of (run_w w acts) = Got e v.
 Proof.
   intros I H. apply outcome_got in H as (A & B & C). apply outcome_got.
-  destruct (has_value_run e v acts w) as (X & Y & Z & _); [|auto]. repeat split; auto. destruct I as [I1 _ _ _]; auto.
+  destruct (has_value_run e v acts w) as (X & Y & Z & _); [|auto]. repeat split; auto.
 Qed.
 
 (* observations on a result that has its value: immediate, at the same clock, state untouched *)
@@ -410,19 +405,21 @@ Definition dead (tt : timeout) (l : list (N * Z)) (e : bool) (v : Z) (t : Z) (w 
 Lemma dead_run tt l e v t acts w : expired_at tt t = true -> no_set_expiry acts ->
   dead tt l e v t w -> dead tt l e v t (run_w w acts).
 Proof.
-  intros X. apply (closed_run (dead tt l e v t)); unfold dead.
+  intros X. apply (closed_run_p (dead tt l e v t)); unfold dead.
   - intros w0 t0 H (A & B & C & D & E & F). cbn. repeat split; auto. lia.
   - intros; cbn; auto.
-  - intros w0 m (A & B & C & D & E & F). pose proof (dispatch_frame w0 m) as (N & _ & _ & _ & T & _).
-    pose proof (dispatch_result w0 m) as R. cbn zeta in *. pose proof (dur_nonneg m).
-    assert (ar_expired (res w0) (now w0) = true) as AX.
-    { unfold ar_expired. rewrite A, B. cbn. eapply expired_mono; eauto. }
-    rewrite T, N. destruct m as [e' v'|d|].
-    + destruct (registered w0); [rewrite AX in R; destruct R as (_ & R1 & R2 & _)|destruct R as (R1 & R2 & _)];
+  - intros w0 r m (A & B & C & D & E & F). pose proof (dispatch_frame w0 r m) as (N & _ & _ & _ & _ & _ & _ & T & _).
+    pose proof (dispatch_result w0 r m) as R. cbn zeta in *. pose proof (dur_nonneg m).
+    rewrite T, N. destruct m as [e' v' u|d|].
+    + assert (ar_expired (res w0) (now w0 + Z.of_N u) = true) as AX.
+      { unfold ar_expired. rewrite A, B. cbn. eapply expired_mono; [|exact X]. lia. }
+      destruct (registered w0); [rewrite AX in R; destruct R as (_ & R1 & R2 & _)|destruct R as (R1 & R2 & _)];
         rewrite R1, R2; repeat split; auto; lia.
     + destruct R as (R1 & R2 & _). rewrite R1, R2. repeat split; auto; lia.
     + destruct R as (R1 & R2 & _). rewrite R1, R2. repeat split; auto; lia.
-  - intros w0 c (A & B & C & D & E & F). unfold ar_add_callback. rewrite A. cbn. repeat split; auto.
+  - intros w0 c r (A & B & C & D & E & F). unfold ar_add_callback. rewrite A. cbn. repeat split; auto.
+  - intros w0 c r (A & B & C & D & E & F). cbn. repeat split; auto.
+  - intros w0 p (A & B & C & D & E & F). cbn. repeat split; auto.
 Qed.
 
 Theorem expired_final w acts : no_set_expiry acts -> outcome_of w = Expired ->
@@ -443,133 +440,351 @@ Proof.
   cbn [step]. unfold q_error, q_ready, q_value, ar_wait, wait_fuel, ar_expired. cbn [wait_loop]. rewrite A, X. cbn. repeat split.
 Qed.
 
-(* 1c. the dispatch of the (still registered) reply decides: accepted iff the clock is before the expiry *)
-Theorem reply_decides w e v : registered w = true -> ready (res w) = false ->
-  let w' := dispatch w (Reply e v) in
-  registered w' = false /\ now w' = now w /\
-  if expired_at (ttl (res w)) (now w)
+(* 1c. the dispatch of the (still registered) reply decides, at the clock at which its value has been materialised:
+       accepted iff that clock is before the expiry *)
+Theorem reply_decides w r e v u : registered w = true -> ready (res w) = false ->
+  let w' := fst (dispatch w r (Reply e v u)) in
+  let t := now w + Z.of_N u in
+  registered w' = false /\ now w' = t /\
+  if expired_at (ttl (res w)) t
   then outcome_of w' = Expired /\ res w' = res w /\ log w' = log w
-  else outcome_of w' = Got e v /\ log w' = log w ++ map (fun c => (c, now w)) (callbacks (res w)).
+  else outcome_of w' = Got e v /\ (cb_ok w -> log w' = log w ++ at_clock t (callbacks (res w))).
 Proof.
-  intros R NR. pose proof (dispatch_result w (Reply e v)) as H. pose proof (dispatch_frame w (Reply e v)) as (N & _).
-  cbn zeta in *. rewrite R in H. unfold ar_expired in H. rewrite NR in H. cbn [negb andb] in H. cbn [dur] in N. rewrite Z.add_0_r in N. destruct H as (H0 & H).
-  split; [exact H0|]. split; [exact N|]. destruct (expired_at (ttl (res w)) (now w)) eqn:X.
+  intros R NR. pose proof (dispatch_result w r (Reply e v u)) as H. pose proof (dispatch_frame w r (Reply e v u)) as (N & _).
+  cbn zeta in *. rewrite R in H. unfold ar_expired in H. rewrite NR in H. cbn [negb andb] in H. cbn [dur] in N. destruct H as (H0 & H).
+  split; [exact H0|]. split; [exact N|]. destruct (expired_at (ttl (res w)) (now w + Z.of_N u)) eqn:X.
   - destruct H as (A & B & _). repeat split; auto. apply outcome_expired. rewrite A, N. auto.
-  - destruct H as (A & B & C & _ & E & _). split; [|exact E]. apply outcome_got. auto.
+  - destruct H as (A & B & C & _ & E). split; [apply outcome_got; auto|]. intros K. now destruct (E K).
 Qed.
 
-(* ------------------------------------------------------------------ 1. the outcome is the first of "reply dispatched" and "expiry passed" *)
-Fixpoint first_reply (d : list (Z * Z * msg)) : option (Z * bool * Z) :=
+(* ------------------------------------------------------------------ 1. the outcome is the first of "reply decided" and "expiry passed" *)
+(* the dispatch of the first reply: (clock its frame was complete, clock its value had been materialised, exception?, value) *)
+Fixpoint first_reply (d : list (Z * Z * Z * msg)) : option (Z * Z * bool * Z) :=
   match d with
   | [] => None
-  | (t, _, Reply e v) :: _ => Some (t, e, v)
+  | (_, rc, t, Reply e v _) :: _ => Some (rc, t, e, v)
   | _ :: r => first_reply r
   end.
 Lemma first_reply_app d x : first_reply (d ++ [x]) = match first_reply d with Some s => Some s | None => first_reply [x] end.
-Proof. induction d as [|[[t t'] [e v|n|]] d IH]; cbn [app first_reply]; auto. Qed.
+Proof. induction d as [|[[[r rc] t] [e v u|n|]] d IH]; cbn [app first_reply]; auto. Qed.
 
 Definition chr (tt : timeout) (w : world) : Prop :=
   ttl (res w) = tt /\
   match first_reply (g_disp w) with
   | None => registered w = true /\ ready (res w) = false
-  | Some (t, e, v) => registered w = false /\ t <= now w /\
+  | Some (_, t, e, v) => registered w = false /\ t <= now w /\
       if expired_at tt t then ready (res w) = false
       else ready (res w) = true /\ is_exc (res w) = e /\ obj (res w) = v /\ g_got w = Some t
   end.
 
 Lemma chr_run tt acts w : no_set_expiry acts -> chr tt w -> chr tt (run_w w acts).
 Proof.
-  apply (closed_run (chr tt)); unfold chr.
-  - intros w0 t0 H (A & B). cbn. split; [exact A|]. destruct (first_reply (g_disp w0)) as [[[t e] v]|]; [|exact B].
+  apply (closed_run_p (chr tt)); unfold chr.
+  - intros w0 t0 H (A & B). cbn. split; [exact A|]. destruct (first_reply (g_disp w0)) as [[[[rc t] e] v]|]; [|exact B].
     destruct B as (B1 & B2 & B3). repeat split; auto. lia.
   - intros; cbn; auto.
-  - intros w0 m (A & B). pose proof (dispatch_frame w0 m) as (N & _ & _ & _ & T & G).
-    pose proof (dispatch_result w0 m) as R. cbn zeta in *. pose proof (dur_nonneg m) as D.
+  - intros w0 r m (A & B). pose proof (dispatch_frame w0 r m) as (N & _ & _ & _ & _ & _ & _ & T & G).
+    pose proof (dispatch_result w0 r m) as R. cbn zeta in *. pose proof (dur_nonneg m) as D.
     rewrite T, G, first_reply_app. split; [exact A|].
-    destruct (first_reply (g_disp w0)) as [[[t e] v]|].
-    + destruct B as (B1 & B2 & B3). destruct (dispatch_unreg w0 m B1) as (E1 & E2 & _ & E4). rewrite E1, E2, E4, N.
+    destruct (first_reply (g_disp w0)) as [[[[rc t] e] v]|].
+    + destruct B as (B1 & B2 & B3). destruct (dispatch_unreg w0 r m B1) as (E1 & E2 & _ & E4). cbn zeta in *. rewrite E1, E2, E4, N.
       repeat split; auto. lia.
-    + destruct B as (B1 & B2). destruct m as [e v|d|]; cbn [first_reply].
-      * rewrite B1 in R. unfold ar_expired in R. rewrite B2, A in R. cbn [negb andb] in R. destruct R as (R0 & R).
-        split; [exact R0|]. split; [lia|]. destruct (expired_at tt (now w0)).
+    + destruct B as (B1 & B2). destruct m as [e v u|d|]; cbn [first_reply].
+      * rewrite B1 in R. unfold ar_expired in R. rewrite B2, A in R. cbn [negb andb] in R. cbn [dur] in *. destruct R as (R0 & R).
+        split; [exact R0|]. split; [lia|]. destruct (expired_at tt (now w0 + Z.of_N u)).
         -- destruct R as (-> & _). exact B2.
-        -- destruct R as (R1 & R2 & R3 & _ & _ & R6). auto.
+        -- destruct R as (R1 & R2 & R3 & R4 & _). auto.
       * destruct R as (-> & _ & -> & _). auto.
       * destruct R as (-> & _ & -> & _). auto.
-  - intros w0 c (A & B). unfold ar_add_callback. destruct (ready (res w0)) eqn:Y; cbn; rewrite ?Y; auto.
+  - intros w0 c r (A & B). unfold ar_add_callback. destruct (ready (res w0)) eqn:Y; cbn; rewrite ?Y; auto.
+  - intros w0 c r (A & B). cbn. auto.
+  - intros w0 p (A & B). cbn. auto.
 Qed.
 
-Lemma chr_async_request t sd w : g_disp w = [] -> chr (ttl (res (async_request t sd w))) (async_request t sd w).
-Proof. intros G. unfold chr, async_request. destruct t; cbn; rewrite G; cbn; auto. Qed.
-
-Theorem outcome_first_of_reply_and_expiry tt acts w : no_set_expiry acts -> chr tt w ->
+Theorem outcome_first_of_decision_and_expiry tt acts w : no_set_expiry acts -> chr tt w ->
   let w' := run_w w acts in
   outcome_of w' = match first_reply (g_disp w') with
-                  | Some (t, e, v) => if expired_at tt t then Expired else Got e v
+                  | Some (_, t, e, v) => if expired_at tt t then Expired else Got e v
                   | None => if expired_at tt (now w') then Expired else Pending
                   end.
 Proof.
   intros N C. cbn zeta. destruct (chr_run tt acts w N C) as (A & B). unfold outcome_of. rewrite A.
-  destruct (first_reply (g_disp (run_w w acts))) as [[[t e] v]|].
+  destruct (first_reply (g_disp (run_w w acts))) as [[[[rc t] e] v]|].
   - destruct B as (_ & B2 & B3). destruct (expired_at tt t) eqn:X.
     + rewrite B3. now rewrite (expired_mono tt t _ B2 X).
     + destruct B3 as (-> & -> & -> & _). reflexivity.
   - destruct B as (_ & ->). reflexivity.
 Qed.
 
-(* ------------------------------------------------------------------ 2. callbacks: exactly once, in registration order *)
-Fixpoint cb_ids (acts : list action) : list N :=
-  match acts with [] => [] | AddCb c :: r => c :: cb_ids r | _ :: r => cb_ids r end.
+(* ---- every dispatch took its message from the script; its end is "frame complete" + duration *)
+Definition instant (m : msg) : Prop := match m with Reply _ _ u => u = 0%N | _ => True end.
+Definition instant_replies (q : list (Z * Z * msg)) : Prop := Forall (fun x => instant (snd x)) q.
+Definition whole_frames (q : list (Z * Z * msg)) : Prop := Forall (fun x => snd (fst x) <= fst (fst x)) q.
 
-Lemma regs_step w a : g_regs (fst (step w a)) = g_regs w ++ match a with AddCb c => [(c, now w)] | _ => [] end.
+Definition disp_sound (w : world) : Prop :=
+  Forall (fun d => let '(r, rc, t, m) := d in t = rc + dur m /\ r <= rc) (g_disp w).
+Definition all_instant (w : world) : Prop :=
+  instant_replies (queue w) /\ Forall (fun d => instant (snd d)) (g_disp w).
+
+Lemma serve_disp_sound tt w w' r : serve_tt tt w = (w', r) -> disp_sound w -> disp_sound w'.
 Proof.
-  assert (forall a', (forall c, a' <> AddCb c) -> g_regs (fst (step w a')) = g_regs w) as H.
-  { intros a' NA. apply (closed_step (fun w' => g_regs w' = g_regs w)); auto.
-    - intros w0 m <-. now destruct (dispatch_frame w0 m) as (_ & _ & _ & G & _).
-    - intros c ->. now destruct (NA c).
-  }
-  destruct a; try (rewrite app_nil_r; apply H; discriminate).
-  cbn. unfold ar_add_callback. destruct (ready (res w)); reflexivity.
+  unfold disp_sound. intros H I.
+  apply serve_spec in H as [(a & c & m & q & _ & _ & _ & -> & _)|[(_ & _ & -> & _)|(_ & _ & _ & ->)]]; auto.
+  pose proof (dispatch_frame (set_queue (set_now w (Z.max (Z.max (now w) a) c)) q) (Z.max (now w) a) m) as (_ & _ & _ & _ & _ & _ & _ & _ & G).
+  cbn zeta in G. rewrite G. cbn. apply Forall_app. split; [exact I|]. constructor; [|constructor]. split; lia.
 Qed.
-Lemma regs_run acts : forall w, map fst (g_regs (run_w w acts)) = map fst (g_regs w) ++ cb_ids acts.
+Lemma serve_all_instant tt w w' r : serve_tt tt w = (w', r) -> all_instant w -> all_instant w'.
 Proof.
-  unfold run_w. induction acts as [|a rest IH]; intros w; cbn [fold_left cb_ids]; [now rewrite app_nil_r|].
-  rewrite IH, regs_step, map_app, <- app_assoc. destruct a; cbn; rewrite ?app_nil_r; reflexivity.
+  unfold all_instant, instant_replies. intros H (I1 & I2).
+  apply serve_spec in H as [(a & c & m & q & Q & _ & _ & -> & _)|[(_ & _ & -> & _)|(_ & _ & _ & ->)]]; auto.
+  pose proof (dispatch_frame (set_queue (set_now w (Z.max (Z.max (now w) a) c)) q) (Z.max (now w) a) m) as (_ & Qd & _ & _ & _ & _ & _ & _ & G).
+  cbn zeta in *. rewrite G, Qd. cbn. rewrite Q in I1. inversion I1 as [|? ? Hm Hq]; subst. split; [exact Hq|].
+  apply Forall_app. split; [exact I2|]. constructor; [exact Hm|constructor].
 Qed.
 
-Theorem callbacks_once_in_order w acts : inv w -> g_regs w = [] ->
+Lemma disp_sound_run acts w : disp_sound w -> disp_sound (run_w w acts).
+Proof.
+  apply (closed_run_all disp_sound); try (intros; assumption).
+  - exact serve_disp_sound.
+  - intros w0 c r I. unfold ar_add_callback. destruct (ready (res w0)); exact I.
+Qed.
+Lemma all_instant_run acts w : all_instant w -> all_instant (run_w w acts).
+Proof.
+  apply (closed_run_all all_instant); try (intros; assumption).
+  - exact serve_all_instant.
+  - intros w0 c r I. unfold ar_add_callback. destruct (ready (res w0)); exact I.
+Qed.
+
+Lemma first_reply_in d rc t e v : first_reply d = Some (rc, t, e, v) -> exists r u, In (r, rc, t, Reply e v u) d.
+Proof.
+  induction d as [|[[[r rc'] t'] [e' v' u|n|]] d IH]; cbn [first_reply]; try discriminate.
+  - intros [= <- <- <- <-]. exists r, u. now left.
+  - intros H. destruct (IH H) as (r0 & u0 & I). exists r0, u0. now right.
+  - intros H. destruct (IH H) as (r0 & u0 & I). exists r0, u0. now right.
+Qed.
+
+(* with replies whose value needs no round trip the decision instant is the arrival instant (frame complete) *)
+Theorem outcome_first_of_arrival_and_expiry tt acts w : no_set_expiry acts -> chr tt w -> disp_sound w -> all_instant w ->
   let w' := run_w w acts in
-  map fst (g_regs w') = cb_ids acts /\
-  match outcome_of w' with
-  | Got _ _ => exists tg, g_got w' = Some tg /\ log w' = cb_times tg (g_regs w') /\ callbacks (res w') = []
-  | _ => log w' = [] /\ callbacks (res w') = cb_ids acts
-  end.
+  outcome_of w' = match first_reply (g_disp w') with
+                  | Some (rc, _, e, v) => if expired_at tt rc then Expired else Got e v
+                  | None => if expired_at tt (now w') then Expired else Pending
+                  end.
 Proof.
-  intros I G. cbn zeta. pose proof (regs_run acts w) as RR. rewrite G in RR. cbn in RR. split; [exact RR|].
-  destruct (run_w_inv acts w I) as ([_ I2 I3 _] & _). unfold outcome_of.
-  destruct (ready (res (run_w w acts))).
-  - destruct (I3 eq_refl) as (A & tg & B & _ & D). exists tg. auto.
-  - destruct (I2 eq_refl) as (A & B & _). rewrite <- RR. destruct (expired_at _ _); auto.
+  intros N C S A. cbn zeta. rewrite (outcome_first_of_decision_and_expiry tt acts w N C).
+  destruct (first_reply (g_disp (run_w w acts))) as [[[[rc t] e] v]|] eqn:F; [|reflexivity].
+  destruct (first_reply_in _ _ _ _ _ F) as (r & u & I).
+  pose proof (disp_sound_run acts w S) as S'. pose proof (all_instant_run acts w A) as (_ & A').
+  unfold disp_sound in S'. rewrite Forall_forall in S', A'. specialize (S' _ I). specialize (A' _ I). cbn in S', A'.
+  subst u. cbn in S'. replace t with rc by lia. reflexivity.
+Qed.
+
+(* ------------------------------------------------------------------ 2. callbacks: exactly once, in registration order *)
+Definition cb_times (tg : Z) (regs : list (N * Z)) : list (N * Z) := map (fun r => (fst r, Z.max (snd r) tg)) regs.
+
+Record inv (w : world) : Prop := {
+  inv_pending : ready (res w) = false -> log w = [] /\ map fst (callbacks (res w)) = map fst (g_regs w) /\ g_got w = None;
+  inv_ready : ready (res w) = true ->
+              callbacks (res w) = [] /\ exists tg, g_got w = Some tg /\ tg <= now w /\ log w = cb_times tg (g_regs w);
+  inv_regs : Forall (fun r => snd r <= now w) (g_regs w);
+  inv_cbok : cb_ok w;
+  inv_pend : atom w = true \/ pend w = None;
+  inv_pendok : match pend w with Some (_, r) => iso w = true \/ r = false | None => True end
+}.
+
+(* the histories for which the current tree keeps the callback clauses: no raising callback unless callbacks are isolated,
+   no registration split across the arrival unless registration is atomic *)
+Definition ok_act (i a : bool) (x : action) : bool :=
+  match x with
+  | AddCb _ r => i || negb r
+  | AddCbTest _ r => a && (i || negb r)
+  | _ => true
+  end.
+Definition ok_acts (i a : bool) (acts : list action) : Prop := forallb (ok_act i a) acts = true.
+
+Lemma inv_transfer w w' :
+  res w' = res w -> log w' = log w -> g_regs w' = g_regs w -> g_got w' = g_got w -> now w <= now w' ->
+  iso w' = iso w -> atom w' = atom w -> pend w' = pend w -> inv w -> inv w'.
+Proof.
+  intros R L G T N I A P [I2 I3 I4 I5 I6 I7]. split; unfold cb_ok in *; rewrite ?R, ?L, ?G, ?T, ?I, ?A, ?P; auto.
+  - intros H. destruct (I3 H) as (X & tg & B & C & D). split; [exact X|]. exists tg. repeat split; auto; lia.
+  - eapply Forall_impl; [|exact I4]. cbn. intros; lia.
+Qed.
+
+Lemma cb_times_now regs (cbs : list (N * bool)) t : Forall (fun r => snd r <= t) regs -> map fst cbs = map fst regs ->
+  at_clock t cbs = cb_times t regs.
+Proof.
+  unfold cb_times, at_clock. revert cbs. induction regs as [|[c tr] l IH]; intros [|[c' r'] cbs] F E; cbn in *; try discriminate; [reflexivity|].
+  injection E as -> E. inversion F as [|? ? H F']; subst. cbn in H. rewrite (IH cbs F' E). repeat f_equal. lia.
+Qed.
+
+Lemma inv_dispatch w r m : inv0 w -> inv w -> inv (fst (dispatch w r m)).
+Proof.
+  intros I0 I. pose proof (dispatch_frame w r m) as (N & _ & _ & Fi & Fa & Fp & G & _). pose proof (dispatch_result w r m) as R. cbn zeta in *.
+  pose proof (dur_nonneg m) as D.
+  assert (res (fst (dispatch w r m)) = res w /\ log (fst (dispatch w r m)) = log w /\ g_got (fst (dispatch w r m)) = g_got w ->
+          inv (fst (dispatch w r m))) as Same.
+  { intros (A & B & E). apply (inv_transfer w); auto. lia. }
+  destruct m as [e v u|d|]; [|apply Same; tauto..].
+  destruct (registered w) eqn:Rg; [|apply Same; tauto].
+  destruct R as (R0 & R). cbn [dur] in *. destruct (ar_expired (res w) (now w + Z.of_N u)) eqn:X; [apply Same; tauto|].
+  destruct R as (A & B & C & H & K).
+  assert (ready (res w) = false) as NR.
+  { destruct (ready (res w)) eqn:Y; [|reflexivity]. rewrite (I0 Y) in Rg. discriminate. }
+  destruct I as [I2 _ I4 I5 I6 I7]. destruct (I2 NR) as (L0 & CB & _). destruct (K I5) as (K1 & K2).
+  split; unfold cb_ok; rewrite ?G, ?N, ?Fi, ?Fa, ?Fp; auto.
+  - rewrite A. discriminate.
+  - intros _. split; [exact K1|]. exists (now w + Z.of_N u). repeat split; [exact H|lia|].
+    rewrite K2, L0. cbn. apply cb_times_now; [|exact CB]. eapply Forall_impl; [|exact I4]. cbn; intros; lia.
+  - eapply Forall_impl; [|exact I4]. cbn; intros; lia.
+  - rewrite K1. right. constructor.
+Qed.
+
+Lemma inv_serve tt w w' r : serve_tt tt w = (w', r) -> inv0 w /\ inv w -> inv0 w' /\ inv w'.
+Proof.
+  intros H (I0 & I). split.
+  - revert H I0. apply (serve_from_prims inv0); unfold inv0; [intros; cbn in *; auto..|].
+    intros w0 r0 m J. pose proof (dispatch_result w0 r0 m) as R. cbn zeta in R. destruct m as [e v u|d|].
+    + destruct (registered w0); [now destruct R|]. now destruct R as (_ & _ & -> & _).
+    + destruct R as (-> & _ & -> & _). exact J.
+    + destruct R as (-> & _ & -> & _). exact J.
+  - apply serve_spec in H as [(a & c & m & q & _ & _ & _ & -> & _)|[(_ & _ & -> & _)|(_ & _ & _ & ->)]]; [| |exact I].
+    + apply inv_dispatch; [exact I0|]. apply (inv_transfer w); cbn; auto. lia.
+    + apply (inv_transfer w); cbn; auto. lia.
+Qed.
+
+Lemma inv_add_callback w c r : iso w = true \/ r = false -> inv w -> inv (fst (ar_add_callback w c r)).
+Proof.
+  intros OK [I2 I3 I4 I5 I6 I7]. unfold ar_add_callback, cb_ok in *. destruct (ready (res w)) eqn:R; split; cbn; rewrite ?R; auto.
+  - discriminate.
+  - intros _. destruct (I3 eq_refl) as (A & tg & B & C & D). split; [exact A|]. exists tg. repeat split; auto.
+    rewrite D. unfold cb_times. rewrite map_app. cbn. repeat f_equal. lia.
+  - apply Forall_app. split; [exact I4|]. constructor; [cbn; lia|constructor].
+  - intros _. destruct (I2 eq_refl) as (A & B & C). repeat split; auto. rewrite !map_app, B. reflexivity.
+  - discriminate.
+  - apply Forall_app. split; [exact I4|]. constructor; [cbn; lia|constructor].
+  - destruct I5 as [I5|I5]; [now left|]. destruct OK as [OK|OK]; [now left|]. right. apply Forall_app. split; [exact I5|].
+    constructor; [exact OK|constructor].
+Qed.
+
+Definition good (w : world) : Prop := inv0 w /\ inv w.
+
+Lemma good_step w a : ok_act (iso w) (atom w) a = true -> good w -> good (fst (step w a)).
+Proof.
+  intros OK (I0 & I). apply (closed_step good); [| |split; assumption|].
+  - intros w0 t H (J0 & J). split; [exact J0|]. apply (inv_transfer w0); cbn; auto.
+  - intros tt w0 w' r H J. eapply inv_serve; eauto.
+  - intros RA. destruct a as [d|c r|c r| |t| | | | | |t]; try discriminate RA; cbn [step].
+    + cbn in OK. assert (inv0 (fst (ar_add_callback w c r))) as K0.
+      { unfold inv0, ar_add_callback in *. destruct (ready (res w)) eqn:Y; cbn; rewrite ?Y; auto. }
+      pose proof (inv_add_callback w c r) as K. destruct (ar_add_callback w c r). split; [exact K0|]. apply K; [|exact I].
+      destruct (iso w); [now left|right; now destruct r].
+    + cbn in OK. apply andb_prop in OK as (At & OK). destruct (pend w) eqn:Pd; [split; assumption|]. rewrite At. cbn.
+      split; [exact I0|]. destruct I as [I2 I3 I4 I5 I6 I7]. split; cbn; auto.
+      destruct (iso w); [now left|right; now destruct r].
+    + destruct (pend w) as [[c r]|] eqn:Pd; [|split; assumption].
+      destruct I as [I2 I3 I4 I5 I6 I7]. destruct I6 as [At|Pn]; [|congruence]. rewrite At. rewrite Pd in I7.
+      assert (inv (set_pend w None)) as J by (split; cbn; auto).
+      assert (inv0 (fst (ar_add_callback (set_pend w None) c r))) as K0.
+      { unfold inv0, ar_add_callback in *. cbn. destruct (ready (res w)) eqn:Y; cbn; rewrite ?Y; auto. }
+      pose proof (inv_add_callback (set_pend w None) c r) as K. destruct (ar_add_callback _ c r). split; [exact K0|]. apply K; [|exact J].
+      exact I7.
+    + split; [exact I0|]. destruct I as [I2 I3 I4 I5 I6 I7]. split; cbn; auto.
+Qed.
+
+Lemma flags_step w a : iso (fst (step w a)) = iso w /\ atom (fst (step w a)) = atom w.
+Proof. destruct (same_flags_run [a] w) as (A & B & _). cbn in *. auto. Qed.
+
+Lemma good_run acts : forall w, ok_acts (iso w) (atom w) acts -> good w -> good (run_w w acts).
+Proof.
+  unfold run_w, ok_acts. induction acts as [|a rest IH]; intros w OK G; cbn [fold_left]; [exact G|].
+  cbn in OK. apply andb_prop in OK as (Oa & OK). destruct (flags_step w a) as (Fi & Fa).
+  apply IH; [now rewrite Fi, Fa|]. now apply good_step.
+Qed.
+
+(* the registration sequence of a history: a split registration counts where it is committed *)
+Fixpoint reg_ids (p : option N) (acts : list action) : list N :=
+  match acts with
+  | [] => []
+  | AddCb c _ :: r => c :: reg_ids p r
+  | AddCbTest c _ :: r => reg_ids (match p with Some _ => p | None => Some c end) r
+  | AddCbCommit :: r => match p with Some c => c :: reg_ids None r | None => reg_ids None r end
+  | _ :: r => reg_ids p r
+  end.
+
+Lemma regs_other w a : (forall c r, a <> AddCb c r) -> (forall c r, a <> AddCbTest c r) -> a <> AddCbCommit ->
+  g_regs (fst (step w a)) = g_regs w /\ pend (fst (step w a)) = pend w.
+Proof.
+  intros N1 N2 N3. apply (closed_step (fun w' => g_regs w' = g_regs w /\ pend w' = pend w)); auto.
+  - apply (serve_from_prims (fun w' => g_regs w' = g_regs w /\ pend w' = pend w)); auto.
+    intros w0 r m (<- & <-). now destruct (dispatch_frame w0 r m) as (_ & _ & _ & _ & _ & P & G & _).
+  - intros R. destruct a as [d|c r|c r| |t| | | | | |t]; try discriminate R.
+    + now destruct (N1 c r). + now destruct (N2 c r). + now destruct N3. + cbn. auto.
+Qed.
+
+Lemma regs_run acts : forall w, ok_acts (iso w) (atom w) acts -> good w ->
+  map fst (g_regs (run_w w acts)) = map fst (g_regs w) ++ reg_ids (option_map fst (pend w)) acts.
+Proof.
+  unfold run_w, ok_acts. induction acts as [|a rest IH]; intros w OK G; cbn [fold_left reg_ids]; [now rewrite app_nil_r|].
+  cbn in OK. apply andb_prop in OK as (Oa & OK). destruct (flags_step w a) as (Fi & Fa).
+  pose proof (good_step w a Oa G) as G1. rewrite IH; [|now rewrite Fi, Fa|exact G1]. clear IH.
+  assert (forall c r, g_regs (fst (ar_add_callback w c r)) = g_regs w ++ [(c, now w)] /\ pend (fst (ar_add_callback w c r)) = pend w) as AC.
+  { intros c r. unfold ar_add_callback. destruct (ready (res w)); cbn; auto. }
+  destruct a as [d|c r|c r| |t| | | | | |t];
+    try (match goal with |- context [step w ?a] =>
+           destruct (regs_other w a ltac:(intros; discriminate) ltac:(intros; discriminate) ltac:(discriminate)) as (-> & ->) end; reflexivity).
+  - cbn [step]. destruct (AC c r) as (A & B). destruct (ar_add_callback w c r). cbn in *. rewrite A, B, map_app, <- app_assoc. reflexivity.
+  - cbn [step]. cbn in Oa. apply andb_prop in Oa as (At & _). destruct (pend w) as [[c0 r0]|] eqn:Pd; cbn; [now rewrite Pd|]. rewrite At. cbn. reflexivity.
+  - cbn [step]. destruct (pend w) as [[c r]|] eqn:Pd; cbn [option_map fst]; [|cbn; now rewrite Pd].
+    destruct G as (_ & [_ _ _ _ [At|Pn] _]); [|congruence]. rewrite At.
+    assert (g_regs (fst (ar_add_callback (set_pend w None) c r)) = g_regs w ++ [(c, now w)] /\ pend (fst (ar_add_callback (set_pend w None) c r)) = None) as (A & B).
+    { unfold ar_add_callback. cbn. destruct (ready (res w)); cbn; auto. }
+    destruct (ar_add_callback _ c r). cbn in *. rewrite A, B, map_app, <- app_assoc. reflexivity.
 Qed.
 
 Lemma cb_times_ids tg regs : map fst (cb_times tg regs) = map fst regs.
 Proof. unfold cb_times. rewrite map_map. reflexivity. Qed.
 
+Theorem callbacks_once_in_order w acts : good w -> g_regs w = [] -> pend w = None -> ok_acts (iso w) (atom w) acts ->
+  let w' := run_w w acts in
+  map fst (g_regs w') = reg_ids None acts /\
+  match outcome_of w' with
+  | Got _ _ => exists tg, g_got w' = Some tg /\ log w' = cb_times tg (g_regs w') /\ callbacks (res w') = []
+  | _ => log w' = [] /\ map fst (callbacks (res w')) = map fst (g_regs w')
+  end.
+Proof.
+  intros G Gr Pn OK. cbn zeta. pose proof (regs_run acts w OK G) as RR. rewrite Gr, Pn in RR. cbn in RR. split; [exact RR|].
+  destruct (good_run acts w OK G) as (_ & [I2 I3 _ _ _ _]). unfold outcome_of.
+  destruct (ready (res (run_w w acts))).
+  - destruct (I3 eq_refl) as (A & tg & B & _ & D). exists tg. auto.
+  - destruct (I2 eq_refl) as (A & B & _). destruct (expired_at _ _); auto.
+Qed.
+
 (* ------------------------------------------------------------------ 3. wait raises exactly at the expiry, later only when busy *)
-Definition last_end (ds : list (Z * Z * msg)) (d : Z) : Z := fold_left (fun _ x => snd (fst x)) ds d.
-Definition disp_ok (t0 tm : Z) (tb : bool) (x : Z * Z * msg) : Prop :=
-  let '(r, e, m) := x in t0 <= r /\ (r < tm \/ (tb = true /\ r = tm)) /\ e = r + dur m.
+Definition last_end (ds : list (Z * Z * Z * msg)) (d : Z) : Z := fold_left (fun _ x => snd (fst x)) ds d.
+(* a dispatch performed by a wait that started at t0 with expiry tm on a stream scripted q0: first byte seen at r in
+   [t0, tm] (tm itself only when the stream reports data arriving exactly at the deadline), frame complete at rc,
+   dispatch over at e = rc + duration; the frame is one of the scripted ones *)
+Definition disp_ok (q0 : list (Z * Z * msg)) (t0 tm : Z) (tb : bool) (x : Z * Z * Z * msg) : Prop :=
+  let '(r, rc, e, m) := x in
+  t0 <= r /\ (r < tm \/ (tb = true /\ r = tm)) /\ e = rc + dur m /\ exists a c, In (a, c, m) q0 /\ a <= r /\ rc = Z.max r c.
+
+Lemma disp_ok_weaken q0 q1 t0 t1 tm tb x : incl q1 q0 -> t0 <= t1 -> disp_ok q1 t1 tm tb x -> disp_ok q0 t0 tm tb x.
+Proof.
+  destruct x as [[[r rc] e] m]. unfold disp_ok. intros I L (A & B & C & a & c & D & E & F).
+  repeat split; auto; [lia|]. exists a, c. repeat split; auto.
+Qed.
 
 Lemma wait_loop_exact fuel : forall w,
   ready (res w) = false -> finite (ttl (res w)) = true ->
   let tm := tmax (ttl (res w)) in
   let w' := fst (wait_loop fuel w) in let o := snd (wait_loop fuel w) in
-  exists ds, g_disp w' = g_disp w ++ ds /\ Forall (disp_ok (now w) tm (tie w)) ds /\
+  exists ds, g_disp w' = g_disp w ++ ds /\ Forall (disp_ok (queue w) (now w) tm (tie w)) ds /\
     now w <= last_end ds (now w) /\ last_end ds (now w) <= now w' /\ o <> OHang /\
     (o = OTimeout -> ready (res w') = false /\ now w' = Z.max (Z.max (now w) tm) (last_end ds (now w))) /\
-    (o = ONone -> ready (res w') = true) /\
+    (o = ONone -> ready (res w') = true) /\ (forall c, o = OCbExc c -> ready (res w') = true) /\
     (o = OFuel -> (fuel <= List.length (queue w))%nat) /\
-    (o = ONone \/ o = OTimeout \/ o = OFuel).
+    (o = ONone \/ o = OTimeout \/ o = OFuel \/ exists c, o = OCbExc c).
 Proof.
   induction fuel as [|f IH]; intros w NR F; cbn zeta; cbn [wait_loop]; rewrite NR.
   - destruct (expired_at (ttl (res w)) (now w)) eqn:X; cbn [fst snd]; exists []; rewrite app_nil_r; cbn [last_end fold_left].
@@ -582,30 +797,36 @@ Proof.
     { destruct (Z.ltb_spec (now w) (tmax (ttl (res w)))); [assumption|].
       assert (expired_at (ttl (res w)) (now w) = true) by (apply expired_at_spec; split; [exact F|lia]). congruence. }
     destruct (serve_tt (ttl (res w)) w) as [w1 r] eqn:E.
-    apply serve_spec in E as [(-> & a & m & q & Q & B1 & _ & ->)|[(-> & _ & -> & _)|(-> & F' & _)]]; [| |congruence].
-    + (* a message was received and dispatched *)
-      set (t' := Z.max (now w) a) in *. set (w0 := set_queue (set_now w t') q).
-      pose proof (dispatch_frame w0 m) as (N & Qd & Td & _ & T & G). pose proof (dispatch_result w0 m) as R. cbn zeta in *.
+    apply serve_spec in E as [(a & c & m & q & Q & B1 & _ & -> & ->)|[(-> & _ & -> & _)|(-> & F' & _)]]; [| |congruence].
+    + (* a frame was received and dispatched *)
+      set (t' := Z.max (now w) a) in *. set (w0 := set_queue (set_now w (Z.max t' c)) q).
+      pose proof (dispatch_frame w0 t' m) as (N & Qd & Td & _ & _ & _ & _ & T & G). cbn zeta in *.
       pose proof (dur_nonneg m) as D. cbn [now set_queue set_now w0] in N, G.
-      assert (disp_ok (now w) (tmax (ttl (res w))) (tie w) (t', t' + dur m, m)) as OK.
-      { unfold disp_ok. repeat split; [lia|auto]. }
-      destruct (ready (res (dispatch w0 m))) eqn:Y.
-      * (* it made the result ready: the loop ends *)
-        assert (wait_loop f (dispatch w0 m) = (dispatch w0 m, ONone)) as ->.
-        { destruct f; cbn [wait_loop]; now rewrite Y. }
-        cbn [fst snd]. exists [(t', t' + dur m, m)]. rewrite G. cbn [last_end fold_left fst snd].
-        repeat split; auto; try lia; try discriminate.
-      * specialize (IH (dispatch w0 m) Y). rewrite T in IH. cbn [res ttl set_queue set_now w0] in IH. specialize (IH F).
-        cbn zeta in IH. destruct IH as (ds & I1 & I2 & I3 & I4 & I5 & I6 & I7 & I8 & I9).
-        rewrite N, Td in *. cbn [tie set_queue set_now w0] in I2.
-        destruct (wait_loop f (dispatch w0 m)) as [w' o]. cbn [fst snd] in *.
-        exists ((t', t' + dur m, m) :: ds). rewrite I1, G, <- app_assoc. cbn [app last_end fold_left fst snd].
-        fold (last_end ds (t' + dur m)).
-        repeat split; auto; try lia.
-        -- constructor; [exact OK|]. eapply Forall_impl; [|exact I2]. intros [[r e] m']. unfold disp_ok. intros (? & ? & ?). repeat split; auto; lia.
-        -- apply I6; auto.
-        -- destruct (I6 H) as (_ & ->). lia.
-        -- intros H. specialize (I8 H). rewrite Qd in I8. cbn [queue set_queue w0] in I8. rewrite Q. cbn [List.length]. lia.
+      assert (disp_ok (queue w) (now w) (tmax (ttl (res w))) (tie w) (t', Z.max t' c, Z.max t' c + dur m, m)) as OK.
+      { unfold disp_ok. repeat split; [lia|auto|]. exists a, c. rewrite Q. repeat split; [now left|lia]. }
+      destruct (snd (dispatch w0 t' m)) as [cb|] eqn:X1; cbn [res_of_exc].
+      * (* a callback of the accepted reply raised: its exception leaves wait, the result is ready *)
+        cbn [fst snd]. exists [(t', Z.max t' c, Z.max t' c + dur m, m)]. rewrite G. cbn [last_end fold_left fst snd].
+        pose proof (dispatch_exc_ready w0 t' m cb X1) as RD.
+        repeat split; auto; try lia; try discriminate. right; right; right. now exists cb.
+      * destruct (ready (res (fst (dispatch w0 t' m)))) eqn:Y.
+        -- (* it made the result ready: the loop ends *)
+           assert (wait_loop f (fst (dispatch w0 t' m)) = (fst (dispatch w0 t' m), ONone)) as ->.
+           { destruct f; cbn [wait_loop]; now rewrite Y. }
+           cbn [fst snd]. exists [(t', Z.max t' c, Z.max t' c + dur m, m)]. rewrite G. cbn [last_end fold_left fst snd].
+           repeat split; auto; try lia; try discriminate.
+        -- specialize (IH (fst (dispatch w0 t' m)) Y). rewrite T in IH. cbn [res ttl set_queue set_now w0] in IH. specialize (IH F).
+           cbn zeta in IH. destruct IH as (ds & I1 & I2 & I3 & I4 & I5 & I6 & I7 & I7' & I8 & I9).
+           rewrite N, Td, Qd in *. cbn [tie queue set_queue set_now w0] in I2, I8.
+           destruct (wait_loop f (fst (dispatch w0 t' m))) as [w' o]. cbn [fst snd] in *.
+           exists ((t', Z.max t' c, Z.max t' c + dur m, m) :: ds). rewrite I1, G, <- app_assoc. cbn [app last_end fold_left fst snd].
+           fold (last_end ds (Z.max t' c + dur m)).
+           repeat split; auto; try lia.
+           ++ constructor; [exact OK|]. eapply Forall_impl; [|exact I2]. intros x. apply disp_ok_weaken; [|lia].
+              rewrite Q. intros y Hy. now right.
+           ++ apply I6; auto.
+           ++ destruct (I6 H) as (_ & ->). lia.
+           ++ intros H. specialize (I8 H). rewrite Q. cbn [List.length]. lia.
     + (* nothing arrived before the deadline: the clock is at the expiry *)
       set (w1 := set_now w (Z.max (now w) (tmax (ttl (res w))))).
       assert (wait_loop f w1 = (w1, OTimeout)) as ->.
@@ -621,32 +842,51 @@ Proof. unfold last_end. now rewrite fold_left_app. Qed.
 Theorem wait_exact w : ready (res w) = false -> finite (ttl (res w)) = true ->
   let tm := tmax (ttl (res w)) in
   let w' := fst (ar_wait w) in let o := snd (ar_wait w) in
-  exists ds, g_disp w' = g_disp w ++ ds /\ Forall (disp_ok (now w) tm (tie w)) ds /\
-    (o = ONone \/ o = OTimeout) /\
-    (o = ONone -> ready (res w') = true) /\
+  exists ds, g_disp w' = g_disp w ++ ds /\ Forall (disp_ok (queue w) (now w) tm (tie w)) ds /\
+    (o = ONone \/ o = OTimeout \/ exists c, o = OCbExc c) /\
+    (o <> OTimeout -> ready (res w') = true) /\
     (o = OTimeout -> ready (res w') = false /\ tm <= now w' /\ now w' = Z.max (Z.max (now w) tm) (last_end ds (now w))) /\
     (o = OTimeout -> Z.max (now w) tm < now w' ->
-       exists ds' r d, ds = ds' ++ [(r, now w', Traffic d)] /\ r <= tm /\ now w' = r + Z.of_N d).
+       exists ds' r rc m, ds = ds' ++ [(r, rc, now w', m)] /\ r <= tm /\ now w' = rc + dur m /\ (tm < rc \/ 0 < dur m)).
 Proof.
   intros NR F. cbn zeta. unfold ar_wait.
-  destruct (wait_loop_exact (wait_fuel w) w NR F) as (ds & A & B & C & D & E & G & H & I & J). cbn zeta in *.
+  destruct (wait_loop_exact (wait_fuel w) w NR F) as (ds & A & B & C & D & E & G & H & H' & I & J). cbn zeta in *.
   exists ds. split; [exact A|]. split; [exact B|].
   assert (snd (wait_loop (wait_fuel w) w) <> OFuel) as NF.
   { intros X. specialize (I X). unfold wait_fuel in I. lia. }
-  split; [destruct J as [|[|]]; auto; contradiction|]. split; [exact H|]. split.
+  split; [destruct J as [|[|[|]]]; auto; contradiction|]. split.
+  { intros NT. destruct J as [J|[J|[J|(c & J)]]]; [auto|contradiction|contradiction|eauto]. } split.
   - intros X. destruct (G X) as (G1 & G2). repeat split; auto. lia.
   - intros X L. destruct (G X) as (_ & G2). rewrite G2 in L.
     destruct ds as [|x ds0] using rev_ind; [cbn in L; lia|]. clear IHds0.
-    rewrite last_end_snoc in *. destruct x as [[r e] m]. cbn [fst snd] in *.
-    apply Forall_app in B as (_ & B). apply Forall_inv in B. unfold disp_ok in B. destruct B as (B1 & B2 & B3).
-    assert (0 < dur m) as P by lia. destruct m as [| d |]; cbn in P; try lia.
-    exists ds0, r, d. cbn [dur] in *. repeat split; [|lia|lia]. repeat f_equal. lia.
+    rewrite last_end_snoc in *. destruct x as [[[r rc] e] m]. cbn [fst snd] in *.
+    apply Forall_app in B as (_ & B). apply Forall_inv in B. unfold disp_ok in B. destruct B as (B1 & B2 & B3 & a & c & B4 & B5 & B6).
+    exists ds0, r, rc, m. pose proof (dur_nonneg m). repeat split; try lia. repeat f_equal. lia.
+Qed.
+
+(* the statement's clause: with whole frames and replies that need no round trip, wait is late only because it was busy
+   serving a request that arrived no later than the expiry *)
+Theorem wait_late_only_when_serving w : ready (res w) = false -> finite (ttl (res w)) = true ->
+  whole_frames (queue w) -> instant_replies (queue w) ->
+  let tm := tmax (ttl (res w)) in
+  let w' := fst (ar_wait w) in
+  snd (ar_wait w) = OTimeout -> Z.max (now w) tm < now w' ->
+  exists ds' r d, g_disp w' = g_disp w ++ ds' ++ [(r, r, now w', Traffic d)] /\ r <= tm /\ now w' = r + Z.of_N d /\ (0 < d)%N.
+Proof.
+  intros NR F WF IR tm w' X L. destruct (wait_exact w NR F) as (ds & A & B & _ & _ & _ & K). cbn zeta in *.
+  destruct (K X L) as (ds' & r & rc & m & -> & K1 & K2 & K3).
+  apply Forall_app in B as (_ & B). apply Forall_inv in B. unfold disp_ok in B. destruct B as (B1 & B2 & B3 & a & c & B4 & B5 & B6).
+  unfold whole_frames, instant_replies in *. rewrite Forall_forall in WF, IR. specialize (WF _ B4). specialize (IR _ B4). cbn in WF, IR.
+  assert (rc = r) as Erc by lia. clear B6. subst rc. destruct m as [e v u|d|]; cbn [dur instant] in IR, K3, K2.
+  - subst u. lia.
+  - exists ds', r, d. fold w' in A. rewrite A. repeat split; auto; lia.
+  - lia.
 Qed.
 
 (* with nothing that can be received up to the expiry the waiting thread is never busy: the error is raised exactly at the expiry *)
 Theorem wait_exact_idle w : ready (res w) = false -> finite (ttl (res w)) = true ->
   let tm := tmax (ttl (res w)) in
-  (match queue w with [] => True | (a, _) :: _ => tm < a \/ (tm = a /\ tie w = false /\ now w < tm) end) ->
+  (match queue w with [] => True | (a, _, _) :: _ => tm < a \/ (tm = a /\ tie w = false /\ now w < tm) end) ->
   ar_wait w = (set_now w (Z.max (now w) tm), OTimeout).
 Proof.
   intros NR F tm HQ. unfold ar_wait, wait_fuel. cbn [wait_loop]. rewrite NR.
@@ -656,7 +896,7 @@ Proof.
   { destruct (Z.ltb_spec (now w) tm); [assumption|].
     assert (expired_at (ttl (res w)) (now w) = true) by (apply expired_at_spec; split; [exact F|assumption]). congruence. }
   destruct (serve_tt (ttl (res w)) w) as [w1 r] eqn:E.
-  apply serve_spec in E as [(-> & a & m & q & Q & B1 & _ & ->)|[(-> & _ & -> & _)|(-> & F' & _)]]; [| |congruence].
+  apply serve_spec in E as [(a & c & m & q & Q & B1 & _ & -> & ->)|[(-> & _ & -> & _)|(-> & F' & _)]]; [| |congruence].
   - exfalso. rewrite Q in HQ. specialize (B1 F LT). fold tm in B1. destruct HQ as [|(? & ? & ?)]; [lia|].
     destruct B1 as [|(? & ?)]; [lia|congruence].
   - fold tm. set (w1 := set_now w (Z.max (now w) tm)).
@@ -673,9 +913,9 @@ Proof.
   - destruct (ready (res w)); [cbn; discriminate|]. rewrite X.
     destruct (serve_tt (ttl (res w)) w) as [w1 r] eqn:E.
     assert (ttl (res w1) = ttl (res w)) as T.
-    { refine (closed_serve (fun w' => ttl (res w') = ttl (res w)) _ _ _ _ _ _ _ E eq_refl); auto.
-      intros w0 m <-. now destruct (dispatch_frame w0 m) as (_ & _ & _ & _ & T & _). }
-    destruct r; try (apply IH; now rewrite T). cbn. discriminate.
+    { refine (serve_from_prims (fun w' => ttl (res w') = ttl (res w)) _ _ _ _ _ _ _ E eq_refl); auto.
+      intros w0 r0 m <-. now destruct (dispatch_frame w0 r0 m) as (_ & _ & _ & _ & _ & _ & _ & T & _). }
+    destruct r; try (apply IH; now rewrite T); cbn; discriminate.
 Qed.
 Theorem wait_never_times_out_without_expiry w : finite (ttl (res w)) = false -> snd (ar_wait w) <> OTimeout.
 Proof. apply wait_loop_never. Qed.
@@ -695,12 +935,23 @@ Theorem async_request_arms_after_send t sd w :
 Proof. unfold async_request. destruct t; cbn; repeat split. Qed.
 
 (* ------------------------------------------------------------------ the skeleton programs mean the model's functions *)
-Definition mkargs e v c t := {| a_exc := e; a_obj := v; a_func := c; a_timeout := t |}.
+Definition mkargs e v c r t := {| a_exc := e; a_obj := v; a_func := c; a_raises := r; a_timeout := t |}.
 
-Lemma exec_call w e v c t : fst (exec call_prog (mkargs e v c t) w) = ar_call w e v.
+Lemma exec_call w e v c r t :
+  exec (call_prog (iso w)) (mkargs e v c r t) w = (fst (ar_call w e v), obs_of_exc (snd (ar_call w e v))).
 Proof.
-  unfold ar_call. cbn [exec call_prog exec1 eval_guard]. destruct (ar_expired (res w) (now w)); [reflexivity|].
-  destruct w as [n [r x o cb tt] rg q tb l gr gd gg]. reflexivity.
+  unfold ar_call, exec. destruct w as [n [rd x o cb tt] rg q tb i a p l gr gd gg]. cbn [iso res now callbacks ready ttl].
+  destruct i; cbn [call_prog call_prog_current call_prog_repaired exec_l exec1 on_guard eval_guard res now].
+  - destruct (ar_expired _ n); [reflexivity|]. cbn.
+    destruct (run_all n cb) as [lg [c0|]]; reflexivity.
+  - destruct (ar_expired _ n); [reflexivity|]. cbn.
+    destruct (run_until n cb) as [lg [c0|]]; reflexivity.
+Qed.
+
+Lemma q_ready_obs w : (exists b, snd (q_ready w) = OBool b) \/ (exists c, snd (q_ready w) = OCbExc c).
+Proof.
+  unfold q_ready. destruct (ready (res w)); [left; eexists; reflexivity|]. destruct (expired_at _ _); [left; eexists; reflexivity|].
+  destruct (poll_all0 w) as [w' [c|]]; [right|left]; eexists; reflexivity.
 Qed.
 
 Lemma while_wait_loop fuel : forall w,
@@ -712,31 +963,35 @@ Proof.
   induction fuel as [|f IH]; intros w; cbn [while_serve wait_loop eval_guard]; destruct (ready (res w)) eqn:R; cbn [negb];
     try (rewrite R; reflexivity); destruct (expired_at (ttl (res w)) (now w)) eqn:X; cbn [negb]; try (rewrite R; reflexivity);
     try reflexivity.
-  destruct (serve_tt (ttl (res w)) w) as [w1 r]. destruct r; try apply IH. reflexivity.
+  destruct (serve_tt (ttl (res w)) w) as [w1 r]. destruct r; try apply IH; reflexivity.
 Qed.
 Lemma exec_wait x w : exec wait_prog x w = ar_wait w.
 Proof.
-  unfold ar_wait. rewrite <- while_wait_loop. cbn [exec wait_prog exec1].
-  destruct (while_serve (wait_fuel w) _ w) as [w' [o|]]; [reflexivity|]. cbn [eval_guard]. destruct (ready (res w')); reflexivity.
+  unfold ar_wait, exec. rewrite <- while_wait_loop. cbn [exec_l wait_prog exec1].
+  destruct (while_serve (wait_fuel w) _ w) as [w' [o|]]; [reflexivity|]. cbn [on_guard eval_guard]. destruct (ready (res w')); reflexivity.
 Qed.
-Lemma exec_add_callback w e v c t : fst (exec add_callback_prog (mkargs e v c t) w) = ar_add_callback w c.
+Lemma exec_add_callback w e v c r t :
+  exec (add_callback_prog (atom w)) (mkargs e v c r t) w = (fst (ar_add_callback w c r), obs_of_exc (snd (ar_add_callback w c r))).
 Proof.
-  destruct w as [n [r x o cb tt] rg q tb l gr gd gg]. destruct r; reflexivity.
+  destruct w as [n [rd x o cb tt] rg q tb i a p l gr gd gg]. destruct a, rd, r; reflexivity.
 Qed.
-Lemma exec_set_expiry w e v c t : fst (exec set_expiry_prog (mkargs e v c t) w) = ar_set_expiry w t.
-Proof. destruct w as [n [r x o cb tt] rg q tb l gr gd gg]. reflexivity. Qed.
-Lemma exec_ready x w : exec ready_prog x w = (fst (q_ready w), OBool (snd (q_ready w))).
+Lemma exec_set_expiry w e v c r t : fst (exec set_expiry_prog (mkargs e v c r t) w) = ar_set_expiry w t.
+Proof. destruct w as [n [rd x o cb tt] rg q tb i a p l gr gd gg]. reflexivity. Qed.
+Lemma exec_ready x w : exec ready_prog x w = q_ready w.
 Proof.
-  unfold q_ready. cbn [exec ready_prog exec1 eval_guard]. destruct (ready (res w)); [reflexivity|].
-  destruct (expired_at (ttl (res w)) (now w)); reflexivity.
+  unfold q_ready, exec. cbn [exec_l ready_prog exec1 on_guard eval_guard]. destruct (ready (res w)); [reflexivity|].
+  destruct (expired_at (ttl (res w)) (now w)); [reflexivity|]. destruct (poll_all0 w) as [w' [c|]]; reflexivity.
 Qed.
-Lemma exec_error x w : exec error_prog x w = (fst (q_error w), OBool (snd (q_error w))).
-Proof. unfold q_error. cbn [exec error_prog exec1 eval_guard]. destruct (q_ready w) as [w' [|]]; reflexivity. Qed.
+Lemma exec_error x w : exec error_prog x w = q_error w.
+Proof.
+  unfold q_error, exec. cbn [exec_l error_prog exec1]. unfold on_guard. cbn [eval_guard].
+  destruct (q_ready_obs w) as [(b & E)|(c & E)]; destruct (q_ready w) as [w' o]; cbn in E; subst o; [destruct b|]; reflexivity.
+Qed.
 Lemma exec_expired x w : exec expired_prog x w = (w, OBool (ar_expired (res w) (now w))).
-Proof. unfold ar_expired. cbn [exec expired_prog exec1 eval_guard]. destruct (ready (res w)); reflexivity. Qed.
+Proof. unfold ar_expired, exec. cbn [exec_l expired_prog exec1]. unfold on_guard. cbn [eval_guard]. destruct (ready (res w)); reflexivity. Qed.
 Lemma exec_value x w : exec value_prog x w = q_value w.
 Proof.
-  unfold q_value. cbn [exec value_prog exec1]. destruct (ar_wait w) as [w' o]. destruct o; reflexivity.
+  unfold q_value, exec. cbn [exec_l value_prog exec1]. destruct (ar_wait w) as [w' o]. destruct o; reflexivity.
 Qed.
 
 Lemma cexec_async_request cfg own sd t w :
@@ -752,3 +1007,21 @@ Qed.
 Lemma cexec_timed_call cfg own sd t0 w :
   c_w (cexec cfg own sd timed_call_prog {| c_w := w; c_timeout := t0; c_ret := None |}) = timed_call own sd w.
 Proof. reflexivity. Qed.
+(* a synchronous operation on a proxy (netref.syncreq) is the connection's sync_request: it carries the configured timeout;
+   an asynchronous one (netref.asyncreq) is async_request without a timeout *)
+Lemma cexec_syncreq cfg own sd t0 w :
+  let f := cexec cfg own sd syncreq_prog {| c_w := w; c_timeout := t0; c_ret := None |} in
+  (c_w f, c_ret f) = (fst (sync_request (cfg "sync_request_timeout"%string) sd w), Some (snd (sync_request (cfg "sync_request_timeout"%string) sd w))).
+Proof.
+  cbn [cexec syncreq_prog fold_left cexec1 c_w c_timeout c_ret].
+  destruct (sync_request (cfg "sync_request_timeout"%string) sd w). reflexivity.
+Qed.
+Lemma cexec_asyncreq cfg own sd t0 w :
+  c_w (cexec cfg own sd asyncreq_prog {| c_w := w; c_timeout := t0; c_ret := None |}) = async_request None sd w.
+Proof. reflexivity. Qed.
+
+(* the two facts as functions of the programs *)
+Lemma facts_current : isolated_of call_prog_current = false /\ atomic_of call_prog_current add_callback_prog_current = false.
+Proof. split; reflexivity. Qed.
+Lemma facts_repaired : isolated_of call_prog_repaired = true /\ atomic_of call_prog_repaired add_callback_prog_repaired = true.
+Proof. split; reflexivity. Qed.
